@@ -1,12 +1,2818 @@
-//! C21 — monitor not built yet (stub so that the registry is complete).
+//! C21 — the analyzer completes on every well-formed input and its output is well-formed.
+//!
+//! Monitor shape: the REAL command line binary (built with feature `verif` into
+//! `<harness>/target-cli`) is run as a subprocess on generated P-Code projects (extractor JSON
+//! format) + matching generated ELF files; an independent oracle inspects exit status, stderr
+//! and the `--json --quiet` output.
+//!
+//! This file also hosts the shared pieces used by C22 and C23: the program generator
+//! (`gen_input`), the ELF writer, the per-run temp dirs, the configuration dir and `run_cli`.
+
 use crate::core::*;
+use crate::prng::{hash_str, mix, Rng};
+use serde_json::{json, Value};
+use std::collections::{BTreeMap, BTreeSet};
+use std::path::PathBuf;
+use std::process::{Command, Stdio};
+use std::sync::atomic::{AtomicUsize, Ordering};
+use std::time::{Duration, Instant};
 
 pub fn info() -> CheckInfo {
     CheckInfo {
         id: "C21",
-        rule: "(monitor not built yet)",
-        assumptions: &[],
-        run: |_cfg| Report::new(),
-        replay: |_cfg, _case| Report::new(),
+        rule: "random x86-64 P-Code projects in the extractor's JSON format (2-6 functions built by an instruction-level assembler: prologue/epilogue, stack slots, globals via implicit loads, sub-register ops, flags, if/else, while/do-while loops, switch via BRANCHIND with jump-table hints, direct/indirect/recursive calls, no-return calls, stack canary, jumps into blocks of other functions, blocks listed in two functions, long dependent arithmetic chains, ~40 libc extern symbols (20 kernel symbols for modules) with calling conventions) plus a generated ELF (ET_EXEC or PIE ET_DYN with rodata/data+bss/text PT_LOADs, optional section table with .debug_*; kernel-module ET_REL variant) and one fixed hand-made minimal pair, run through the real CLI with default selection, all checks, two random --partial subsets (incl. CWE78 and the pointer-inference based checks) and 3/20 runs under valgrind memcheck. Oracle: exit status 0, nothing that looks like a panic on stderr, stdout parses as a JSON array, each element names a module listed by --module-versions (CWE125/CWE787 are documented variants of CWE119, CWE415 of CWE416) with that module's version and has correctly typed addresses/tids/symbols/other/description, array sorted by the independent comparator (name, version, addresses, tids, symbols, other, description; byte-wise lexicographic). non-trivial = the run printed >= 1 warning and the program has >= 1 loop; distinct = hash of (P-Code JSON, argument list)",
+        assumptions: &[
+            "the generated P-Code/ELF pairs are inside the extractor's output language: unique TIDs per term (except deliberately shared blocks, which Ghidra emits for overlapping function bodies), every register named in register_properties, libc extern symbols carry their real fixed-parameter signatures, blocks end in [BRANCH] | [CBRANCH,BRANCH] | [CALL] | [CALLIND] | [BRANCHIND] | [RETURN], functions stay below ~45 blocks",
+            "a watchdog of 60 s (valgrind: 45 s quick / 600 s thorough) per run; a firing watchdog is inconclusive, never a violation; inputs that would start after the tier's wall-clock budget are skipped and counted",
+            "the CLI binary in <harness>/target-cli/release is the one run_check.sh builds from the tree under test",
+        ],
+        run,
+        replay,
     }
+}
+
+// =====================================================================================
+// Part 1: P-Code JSON building blocks
+// =====================================================================================
+
+pub fn vreg(name: &str, size: u64) -> Value {
+    json!({"name": name, "value": null, "address": null, "size": size, "is_virtual": false})
+}
+pub fn vtmp(name: &str, size: u64) -> Value {
+    json!({"name": name, "value": null, "address": null, "size": size, "is_virtual": true})
+}
+pub fn vconst(val: u64, size: u64) -> Value {
+    let masked = if size >= 8 { val } else { val & ((1u64 << (size * 8)) - 1) };
+    json!({"name": null, "value": format!("{:0w$x}", masked, w = (size * 2) as usize), "address": null, "size": size, "is_virtual": false})
+}
+pub fn vconst_i(val: i64, size: u64) -> Value {
+    vconst(val as u64, size)
+}
+/// varnode in RAM (implicit load / store at a constant address)
+pub fn vmem(addr: u64, size: u64) -> Value {
+    json!({"name": null, "value": null, "address": format!("{addr:08x}"), "size": size, "is_virtual": false})
+}
+fn r8(name: &str) -> Value {
+    vreg(name, 8)
+}
+
+/// One P-Code operation `out = mnemonic(in0, in1, in2)` as the `term` of a Def.
+pub fn pop(mn: &str, out: Option<Value>, i0: Option<Value>, i1: Option<Value>, i2: Option<Value>) -> Value {
+    json!({"lhs": out, "rhs": {"mnemonic": mn, "input0": i0, "input1": i1, "input2": i2}})
+}
+fn op1(mn: &str, out: Value, a: Value) -> Value {
+    pop(mn, Some(out), Some(a), None, None)
+}
+fn op2(mn: &str, out: Value, a: Value, b: Value) -> Value {
+    pop(mn, Some(out), Some(a), Some(b), None)
+}
+fn op_load(out: Value, addr: Value) -> Value {
+    pop("LOAD", Some(out), None, Some(addr), None)
+}
+fn op_store(addr: Value, val: Value) -> Value {
+    pop("STORE", None, None, Some(addr), Some(val))
+}
+
+pub fn tidj(id: &str, addr: &str) -> Value {
+    json!({"id": id, "address": addr})
+}
+fn blk_tid(addr: u64) -> Value {
+    let a = format!("{addr:08x}");
+    tidj(&format!("blk_{a}"), &a)
+}
+fn sub_tid(addr: u64) -> Value {
+    let a = format!("{addr:08x}");
+    tidj(&format!("sub_{a}"), &a)
+}
+
+/// How an instruction ends.
+#[derive(Clone, Debug)]
+enum Fin {
+    None,
+    Jmp(usize),
+    /// branch to a block that belongs to another function (by address)
+    JmpForeign(u64),
+    CJmp(Value, usize),
+    /// direct call; `returns`: emit a return label to the next instruction
+    Call(u64, bool),
+    CallInd(Value, bool),
+    Ret(Value),
+    /// indirect branch with jump-table hints (labels)
+    JmpInd(Value, Vec<usize>),
+}
+
+#[derive(Clone, Debug)]
+struct Insn {
+    ops: Vec<Value>,
+    fin: Fin,
+    labels: Vec<usize>,
+}
+
+/// Linear instruction list with labels; `assemble` cuts it into basic blocks.
+#[derive(Default)]
+struct Asm {
+    insns: Vec<Insn>,
+    n_labels: usize,
+    pending: Vec<usize>,
+    tmp_counter: u32,
+}
+
+impl Asm {
+    fn label(&mut self) -> usize {
+        self.n_labels += 1;
+        self.n_labels - 1
+    }
+    fn bind(&mut self, l: usize) {
+        self.pending.push(l);
+    }
+    fn push(&mut self, ops: Vec<Value>, fin: Fin) {
+        let labels = std::mem::take(&mut self.pending);
+        self.insns.push(Insn { ops, fin, labels });
+    }
+    fn emit(&mut self, ops: Vec<Value>) {
+        self.push(ops, Fin::None);
+    }
+    /// Ghidra reuses a small set of unique names; so do we.
+    fn tmp(&mut self, size: u64) -> Value {
+        self.tmp_counter = (self.tmp_counter + 1) % 24;
+        vtmp(&format!("$U{:x}", 0x2000 + self.tmp_counter * 0x80), size)
+    }
+}
+
+pub struct Assembled {
+    pub blocks: Vec<Value>,
+    pub end_addr: u64,
+    /// addresses of blocks that start at a bound label (candidates for foreign jumps)
+    pub label_blocks: Vec<u64>,
+    pub n_insns: usize,
+}
+
+fn jmp_json(mn: &str, goto: Value, call: Value, cond: Value, hints: Value) -> Value {
+    json!({"mnemonic": mn, "goto": goto, "call": call, "condition": cond, "target_hints": hints})
+}
+
+fn assemble(asm: &Asm, base: u64) -> Assembled {
+    let n = asm.insns.len();
+    let addr_of = |i: usize| base + 4 * i as u64;
+    // label -> instruction index (labels bound after the last instruction point one past the end)
+    let mut label_at: BTreeMap<usize, usize> = BTreeMap::new();
+    for (i, ins) in asm.insns.iter().enumerate() {
+        for l in &ins.labels {
+            label_at.insert(*l, i);
+        }
+    }
+    for l in &asm.pending {
+        label_at.insert(*l, n);
+    }
+    let laddr = |l: usize| addr_of(*label_at.get(&l).unwrap_or(&n));
+    // block leaders
+    let mut leader = vec![false; n + 1];
+    leader[0] = true;
+    for (i, ins) in asm.insns.iter().enumerate() {
+        if !ins.labels.is_empty() {
+            leader[i] = true;
+        }
+        if !matches!(ins.fin, Fin::None) {
+            leader[i + 1] = true;
+        }
+    }
+    let mut blocks = Vec::new();
+    let mut label_blocks = Vec::new();
+    let mut i = 0;
+    while i < n {
+        let start = i;
+        let mut defs = Vec::new();
+        let mut jmps = Vec::new();
+        loop {
+            let ins = &asm.insns[i];
+            let a = format!("{:08x}", addr_of(i));
+            for (k, o) in ins.ops.iter().enumerate() {
+                defs.push(json!({"tid": tidj(&format!("instr_{a}_{k}"), &a), "term": o}));
+            }
+            let k = ins.ops.len();
+            let jt = |d: usize| tidj(&format!("instr_{a}_{}", k + d), &a);
+            let next = blk_tid(addr_of(i + 1));
+            match &ins.fin {
+                Fin::None => (),
+                Fin::Jmp(l) => jmps.push(json!({"tid": jt(0), "term": jmp_json("BRANCH", json!({"Direct": blk_tid(laddr(*l))}), Value::Null, Value::Null, Value::Null)})),
+                Fin::JmpForeign(t) => jmps.push(json!({"tid": jt(0), "term": jmp_json("BRANCH", json!({"Direct": blk_tid(*t)}), Value::Null, Value::Null, Value::Null)})),
+                Fin::CJmp(c, l) => {
+                    jmps.push(json!({"tid": jt(0), "term": jmp_json("CBRANCH", json!({"Direct": blk_tid(laddr(*l))}), Value::Null, c.clone(), Value::Null)}));
+                    jmps.push(json!({"tid": jt(1), "term": jmp_json("BRANCH", json!({"Direct": next}), Value::Null, Value::Null, Value::Null)}));
+                }
+                Fin::Call(t, returns) => {
+                    let ret = if *returns { json!({"Direct": next}) } else { Value::Null };
+                    jmps.push(json!({"tid": jt(0), "term": jmp_json("CALL", Value::Null, json!({"target": {"Direct": sub_tid(*t)}, "return": ret, "call_string": null}), Value::Null, Value::Null)}));
+                }
+                Fin::CallInd(v, returns) => {
+                    let ret = if *returns { json!({"Direct": next}) } else { Value::Null };
+                    jmps.push(json!({"tid": jt(0), "term": jmp_json("CALLIND", Value::Null, json!({"target": {"Indirect": v}, "return": ret, "call_string": null}), Value::Null, Value::Null)}));
+                }
+                Fin::Ret(v) => jmps.push(json!({"tid": jt(0), "term": jmp_json("RETURN", json!({"Indirect": v}), Value::Null, Value::Null, Value::Null)})),
+                Fin::JmpInd(v, ls) => {
+                    let hints: Vec<String> = ls.iter().map(|l| format!("{:08x}", laddr(*l))).collect();
+                    jmps.push(json!({"tid": jt(0), "term": jmp_json("BRANCHIND", json!({"Indirect": v}), Value::Null, Value::Null, json!(hints))}));
+                }
+            }
+            i += 1;
+            if i >= n || leader[i] {
+                break;
+            }
+        }
+        if jmps.is_empty() {
+            // fall through into the next block: the extractor adds an artificial branch
+            let last = i - 1;
+            let a = format!("{:08x}", addr_of(last));
+            let k = asm.insns[last].ops.len();
+            jmps.push(json!({"tid": tidj(&format!("instr_{a}_{k}"), &a), "term": jmp_json("BRANCH", json!({"Direct": blk_tid(addr_of(i))}), Value::Null, Value::Null, Value::Null)}));
+        }
+        if !asm.insns[start].labels.is_empty() && start > 0 {
+            label_blocks.push(addr_of(start));
+        }
+        blocks.push(json!({"tid": blk_tid(addr_of(start)), "term": {"defs": defs, "jmps": jmps}}));
+    }
+    Assembled { blocks, end_addr: addr_of(n), label_blocks, n_insns: n }
+}
+
+// =====================================================================================
+// Part 2: memory layout, extern symbols, constant pools
+// =====================================================================================
+
+#[derive(Clone, Copy, Debug, PartialEq, Eq)]
+pub enum ElfKind {
+    /// ET_EXEC, addresses as in the file
+    Exec,
+    /// ET_DYN with first PT_LOAD at 0; Ghidra's image base 0x100000 is added to every address
+    Pie,
+    /// ET_REL with .modinfo and .gnu.linkonce.this_module: Linux kernel module
+    Lkm,
+}
+
+#[derive(Clone, Debug)]
+pub struct Layout {
+    pub kind: ElfKind,
+    pub image_base: u64,
+    pub plt_base: u64,
+    pub rodata_base: u64,
+    pub modinfo_base: u64,
+    pub data_base: u64,
+    pub this_module_base: u64,
+    pub bss_base: u64,
+    pub text_base: u64,
+}
+
+pub const RODATA_LEN: u64 = 0x200;
+pub const DATA_LEN: u64 = 0x80;
+pub const BSS_LEN: u64 = 0x100;
+pub const MODINFO_LEN: u64 = 0x40;
+pub const THIS_MODULE_LEN: u64 = 0x80;
+const FN_SLOT: u64 = 0x4000;
+
+impl Layout {
+    pub fn new(kind: ElfKind) -> Layout {
+        let image_base = 0x0010_0000u64;
+        match kind {
+            ElfKind::Exec | ElfKind::Pie => Layout {
+                kind,
+                image_base,
+                plt_base: image_base + 0x800,
+                rodata_base: image_base + 0x1000,
+                modinfo_base: 0,
+                data_base: image_base + 0x4000,
+                this_module_base: 0,
+                bss_base: image_base + 0x4000 + DATA_LEN,
+                text_base: image_base + 0x10000,
+            },
+            ElfKind::Lkm => {
+                // sections are concatenated in section-header order, each aligned to sh_addralign, starting at 0,
+                // then shifted by the image base chosen by the disassembler
+                let al = |x: u64, a: u64| x.div_ceil(a) * a;
+                let rodata = al(0, 16);
+                let modinfo = al(rodata + RODATA_LEN, 8);
+                let data = al(modinfo + MODINFO_LEN, 8);
+                let this_module = al(data + DATA_LEN, 64);
+                let bss = al(this_module + THIS_MODULE_LEN, 8);
+                let text = al(bss + BSS_LEN, 16);
+                Layout {
+                    kind,
+                    image_base,
+                    plt_base: image_base + 0x0010_0000,
+                    rodata_base: image_base + rodata,
+                    modinfo_base: image_base + modinfo,
+                    data_base: image_base + data,
+                    this_module_base: image_base + this_module,
+                    bss_base: image_base + bss,
+                    text_base: image_base + text,
+                }
+            }
+        }
+    }
+}
+
+/// (name, number of fixed register parameters, returns a value, no_return, has_var_args)
+type Ext = (&'static str, usize, bool, bool, bool);
+const EXT_USER: &[Ext] = &[
+    ("malloc", 1, true, false, false),
+    ("calloc", 2, true, false, false),
+    ("realloc", 2, true, false, false),
+    ("free", 1, false, false, false),
+    ("strcpy", 2, true, false, false),
+    ("strlen", 1, true, false, false),
+    ("strcat", 2, true, false, false),
+    ("strncpy", 3, true, false, false),
+    ("memcpy", 3, true, false, false),
+    ("memset", 3, true, false, false),
+    ("sprintf", 2, true, false, true),
+    ("snprintf", 3, true, false, true),
+    ("printf", 1, true, false, true),
+    ("scanf", 0, true, false, true),
+    ("sscanf", 2, true, false, true),
+    ("system", 1, true, false, false),
+    ("chroot", 1, true, false, false),
+    ("chdir", 1, true, false, false),
+    ("setuid", 1, true, false, false),
+    ("umask", 1, true, false, false),
+    ("ioctl", 2, true, false, true),
+    ("access", 2, true, false, false),
+    ("open", 2, true, false, true),
+    ("rand", 0, true, false, false),
+    ("srand", 1, false, false, false),
+    ("time", 1, true, false, false),
+    ("read", 3, true, false, false),
+    ("fgets", 3, true, false, false),
+    ("getenv", 1, true, false, false),
+    ("puts", 1, true, false, false),
+    ("exit", 1, false, true, false),
+    ("abort", 0, false, true, false),
+    ("strdup", 1, true, false, false),
+    ("atoi", 1, true, false, false),
+    ("close", 1, true, false, false),
+    ("recv", 4, true, false, false),
+    ("fopen", 2, true, false, false),
+    ("__stack_chk_fail", 0, false, true, false),
+    ("strchr", 2, true, false, false),
+    ("write", 3, true, false, false),
+];
+const EXT_LKM: &[Ext] = &[
+    ("__kmalloc", 2, true, false, false),
+    ("kfree", 1, false, false, false),
+    ("strcpy", 2, true, false, false),
+    ("strlen", 1, true, false, false),
+    ("strcat", 2, true, false, false),
+    ("strncpy", 3, true, false, false),
+    ("memcpy", 3, true, false, false),
+    ("memset", 3, true, false, false),
+    ("sprintf", 2, true, false, true),
+    ("snprintf", 3, true, false, true),
+    ("_printk", 1, true, false, true),
+    ("_copy_from_user", 3, true, false, false),
+    ("_copy_to_user", 3, true, false, false),
+    ("kmalloc_trace", 3, true, false, false),
+    ("kstrdup", 2, true, false, false),
+    ("mutex_lock", 1, false, false, false),
+    ("mutex_unlock", 1, false, false, false),
+    ("panic", 1, false, true, true),
+    ("__stack_chk_fail", 0, false, true, false),
+    ("memcmp", 3, true, false, false),
+];
+
+/// Read-only strings (format strings, paths, commands) and their offsets in .rodata.
+const RO_STRINGS: &[&str] = &[
+    "%s", "%d\n", "hello %s %d\n", "/bin/sh", "ls -la /tmp", "/tmp/file.txt", "cat %s", "/", "PATH", "r", "%s/%s.%d", "id=%u name=%s\n", "/var/jail", "%x%x%n",
+    "echo %s", "input: ", "%10s", "license=GPL",
+];
+
+fn rodata_bytes() -> (Vec<u8>, Vec<u64>) {
+    let mut bytes = Vec::new();
+    let mut offs = Vec::new();
+    for s in RO_STRINGS {
+        offs.push(bytes.len() as u64);
+        bytes.extend_from_slice(s.as_bytes());
+        bytes.push(0);
+    }
+    // a small table of constants after the strings (read-only ints / pointers)
+    while bytes.len() % 8 != 0 {
+        bytes.push(0);
+    }
+    assert!(bytes.len() as u64 + 0x40 <= RODATA_LEN);
+    bytes.resize(RODATA_LEN as usize, 0);
+    (bytes, offs)
+}
+
+/// .data: two writable format strings, global ints and pointer slots.
+const DATA_WSTR0: u64 = 0x00; // "%s\n"
+const DATA_WSTR1: u64 = 0x08; // "v=%d"
+const DATA_INTS: u64 = 0x10; // 6 x 8 bytes
+const DATA_PTRS: u64 = 0x40; // 8 x 8 bytes
+
+fn data_bytes(lay: &Layout) -> Vec<u8> {
+    let mut d = vec![0u8; DATA_LEN as usize];
+    d[0..4].copy_from_slice(b"%s\n\0");
+    d[8..13].copy_from_slice(b"v=%d\0");
+    for k in 0..6u64 {
+        let v: u64 = [0, 1, 8, 0x1ff, 0x7fff_ffff, u64::MAX][k as usize];
+        d[(DATA_INTS + 8 * k) as usize..(DATA_INTS + 8 * k + 8) as usize].copy_from_slice(&v.to_le_bytes());
+    }
+    for k in 0..8u64 {
+        let v: u64 = match k {
+            0 => lay.rodata_base,
+            1 => lay.bss_base,
+            2 => lay.text_base,
+            3 => lay.text_base + FN_SLOT,
+            _ => 0,
+        };
+        d[(DATA_PTRS + 8 * k) as usize..(DATA_PTRS + 8 * k + 8) as usize].copy_from_slice(&v.to_le_bytes());
+    }
+    d
+}
+
+// =====================================================================================
+// Part 3: x86-64 flavoured function generator
+// =====================================================================================
+
+const FAM: &[(&str, &str, &str, &str)] = &[
+    ("RAX", "EAX", "AX", "AL"),
+    ("RBX", "EBX", "BX", "BL"),
+    ("RCX", "ECX", "CX", "CL"),
+    ("RDX", "EDX", "DX", "DL"),
+    ("RSI", "ESI", "SI", "SIL"),
+    ("RDI", "EDI", "DI", "DIL"),
+    ("RBP", "EBP", "BP", "BPL"),
+    ("RSP", "ESP", "SP", "SPL"),
+    ("R8", "R8D", "R8W", "R8B"),
+    ("R9", "R9D", "R9W", "R9B"),
+    ("R10", "R10D", "R10W", "R10B"),
+    ("R11", "R11D", "R11W", "R11B"),
+    ("R12", "R12D", "R12W", "R12B"),
+    ("R13", "R13D", "R13W", "R13B"),
+    ("R14", "R14D", "R14W", "R14B"),
+    ("R15", "R15D", "R15W", "R15B"),
+];
+const PARAMS: &[&str] = &["RDI", "RSI", "RDX", "RCX", "R8", "R9"];
+
+fn r32(r64: &str) -> &'static str {
+    FAM.iter().find(|f| f.0 == r64).map(|f| f.1).unwrap_or("EAX")
+}
+fn rlow8(r64: &str) -> &'static str {
+    FAM.iter().find(|f| f.0 == r64).map(|f| f.3).unwrap_or("AL")
+}
+
+#[derive(Clone, Copy, PartialEq, Eq, Debug)]
+enum SlotK {
+    Int,
+    Heap,
+    Freed,
+    Str,
+}
+
+/// Generation knobs.
+#[derive(Clone, Debug)]
+pub struct GenOpts {
+    pub kind: ElfKind,
+    /// bias towards things that make iteration order matter (C23)
+    pub order_bias: bool,
+    /// bias towards several syntactic triggers at once (C22)
+    pub trigger_bias: bool,
+    /// add a section table with a `.debug_info` section (CWE215 trigger)
+    pub debug_sections: bool,
+}
+
+/// Program-level generation context.
+pub struct Pg<'a> {
+    pub rng: &'a mut Rng,
+    pub lay: Layout,
+    pub opts: GenOpts,
+    ext: &'static [Ext],
+    used_ext: BTreeSet<usize>,
+    ro_offs: Vec<u64>,
+    /// checks the program is built to trigger (only syntactic, certain triggers)
+    pub expect: BTreeSet<String>,
+    n_funcs: usize,
+    pub loops: usize,
+    /// blocks of already assembled functions that later functions may jump into
+    foreign_targets: Vec<u64>,
+    pub features: BTreeSet<String>,
+    /// names of functions that call a privilege function / system (CWE426 bookkeeping)
+    has_chdir_symbol_calls: bool,
+}
+
+impl<'a> Pg<'a> {
+    fn ext_idx(&self, name: &str) -> Option<usize> {
+        self.ext.iter().position(|e| e.0 == name)
+    }
+    fn ext_addr(&mut self, name: &str) -> Option<u64> {
+        let i = self.ext_idx(name)?;
+        self.used_ext.insert(i);
+        Some(self.lay.plt_base + 0x10 * i as u64)
+    }
+    fn ro(&self, s: &str) -> u64 {
+        let i = RO_STRINGS.iter().position(|x| *x == s).unwrap_or(0);
+        self.lay.rodata_base + self.ro_offs[i]
+    }
+    fn any_ro(&mut self) -> u64 {
+        let i = self.rng.usize_below(RO_STRINGS.len());
+        self.lay.rodata_base + self.ro_offs[i]
+    }
+    fn fn_addr(&self, i: usize) -> u64 {
+        self.lay.text_base + FN_SLOT * i as u64
+    }
+    fn lkm(&self) -> bool {
+        self.lay.kind == ElfKind::Lkm
+    }
+    fn feat(&mut self, f: &str) {
+        self.features.insert(f.to_string());
+    }
+}
+
+struct Fg {
+    asm: Asm,
+    fidx: usize,
+    slots: [SlotK; 6],
+    exit_label: usize,
+    budget: i32,
+    frame: u64,
+    calls_system: bool,
+    calls_priv: bool,
+}
+
+const BUF_OFF: i64 = -0x80;
+const ARG0_OFF: i64 = -0x38;
+const ARG1_OFF: i64 = -0x40;
+
+impl Fg {
+    fn here(&self, pg: &Pg) -> u64 {
+        pg.fn_addr(self.fidx) + 4 * self.asm.insns.len() as u64
+    }
+    fn slot_off(k: usize) -> i64 {
+        -8 * (k as i64 + 1)
+    }
+    // ---- plain instructions --------------------------------------------------------
+    fn mov_ri(&mut self, pg: &mut Pg, reg: &str, imm: u64) {
+        if imm <= 0x7fff_ffff && pg.rng.bool() {
+            // mov r32, imm32 (zero extends)
+            self.asm.emit(vec![op1("COPY", vreg(r32(reg), 4), vconst(imm, 4)), op1("INT_ZEXT", r8(reg), vreg(r32(reg), 4))]);
+        } else {
+            self.asm.emit(vec![op1("COPY", r8(reg), vconst(imm, 8))]);
+        }
+    }
+    fn mov_rr(&mut self, dst: &str, src: &str) {
+        self.asm.emit(vec![op1("COPY", r8(dst), r8(src))]);
+    }
+    fn lea(&mut self, dst: &str, base: &str, off: i64) {
+        self.asm.emit(vec![op2("INT_ADD", r8(dst), r8(base), vconst_i(off, 8))]);
+    }
+    fn ld(&mut self, dst: &str, base: &str, off: i64) {
+        let t = self.asm.tmp(8);
+        self.asm.emit(vec![op2("INT_ADD", t.clone(), r8(base), vconst_i(off, 8)), op_load(r8(dst), t)]);
+    }
+    fn ld32(&mut self, dst: &str, base: &str, off: i64, sext: bool) {
+        let t = self.asm.tmp(8);
+        let t4 = self.asm.tmp(4);
+        let mut ops = vec![op2("INT_ADD", t.clone(), r8(base), vconst_i(off, 8)), op_load(t4.clone(), t)];
+        if sext {
+            ops.push(op1("INT_SEXT", r8(dst), t4));
+        } else {
+            ops.push(op1("COPY", vreg(r32(dst), 4), t4));
+            ops.push(op1("INT_ZEXT", r8(dst), vreg(r32(dst), 4)));
+        }
+        self.asm.emit(ops);
+    }
+    fn st(&mut self, base: &str, off: i64, src: Value) {
+        let t = self.asm.tmp(8);
+        self.asm.emit(vec![op2("INT_ADD", t.clone(), r8(base), vconst_i(off, 8)), op_store(t, src)]);
+    }
+    fn ld_slot(&mut self, dst: &str, k: usize) {
+        self.ld(dst, "RBP", Self::slot_off(k));
+    }
+    fn st_slot(&mut self, k: usize, src: &str) {
+        self.st("RBP", Self::slot_off(k), r8(src));
+    }
+    fn ld_global(&mut self, dst: &str, addr: u64) {
+        self.asm.emit(vec![op1("COPY", r8(dst), vmem(addr, 8))]);
+    }
+    fn st_global(&mut self, addr: u64, src: Value) {
+        self.asm.emit(vec![op1("COPY", vmem(addr, 8), src)]);
+    }
+    /// flags of `a - b` (cmp) ; returns the ops
+    fn cmp_ops(&mut self, a: Value, b: Value, size: u64) -> Vec<Value> {
+        let t = self.asm.tmp(size);
+        vec![
+            op2("INT_LESS", vreg("CF", 1), a.clone(), b.clone()),
+            op2("INT_SBORROW", vreg("OF", 1), a.clone(), b.clone()),
+            op2("INT_SUB", t.clone(), a, b),
+            op2("INT_SLESS", vreg("SF", 1), t.clone(), vconst(0, size)),
+            op2("INT_EQUAL", vreg("ZF", 1), t, vconst(0, size)),
+        ]
+    }
+    fn alu(&mut self, pg: &mut Pg, dst: &str, src: Value) {
+        let (mn, flags) = *pg.rng.pick(&[("INT_ADD", true), ("INT_SUB", true), ("INT_AND", false), ("INT_XOR", false), ("INT_OR", false), ("INT_MULT", false), ("INT_ADD", true)]);
+        let mut ops = Vec::new();
+        if flags {
+            let (c, o) = if mn == "INT_ADD" { ("INT_CARRY", "INT_SCARRY") } else { ("INT_LESS", "INT_SBORROW") };
+            ops.push(op2(c, vreg("CF", 1), r8(dst), src.clone()));
+            ops.push(op2(o, vreg("OF", 1), r8(dst), src.clone()));
+        } else {
+            ops.push(op1("COPY", vreg("CF", 1), vconst(0, 1)));
+            ops.push(op1("COPY", vreg("OF", 1), vconst(0, 1)));
+        }
+        ops.push(op2(mn, r8(dst), r8(dst), src));
+        ops.push(op2("INT_SLESS", vreg("SF", 1), r8(dst), vconst(0, 8)));
+        ops.push(op2("INT_EQUAL", vreg("ZF", 1), r8(dst), vconst(0, 8)));
+        self.asm.emit(ops);
+    }
+    /// conditional jump after a flag-setting instruction
+    fn jcc(&mut self, pg: &mut Pg, target: usize) {
+        let t = self.asm.tmp(1);
+        let t2 = self.asm.tmp(1);
+        match pg.rng.below(6) {
+            0 => self.asm.push(vec![], Fin::CJmp(vreg("ZF", 1), target)),
+            1 => self.asm.push(vec![op1("BOOL_NEGATE", t.clone(), vreg("ZF", 1))], Fin::CJmp(t, target)),
+            2 => self.asm.push(vec![op2("INT_NOTEQUAL", t.clone(), vreg("OF", 1), vreg("SF", 1))], Fin::CJmp(t, target)),
+            3 => self.asm.push(vec![op2("INT_EQUAL", t.clone(), vreg("OF", 1), vreg("SF", 1))], Fin::CJmp(t, target)),
+            4 => self.asm.push(vec![op2("INT_NOTEQUAL", t.clone(), vreg("OF", 1), vreg("SF", 1)), op2("BOOL_OR", t2.clone(), vreg("ZF", 1), t)], Fin::CJmp(t2, target)),
+            _ => self.asm.push(vec![], Fin::CJmp(vreg("CF", 1), target)),
+        }
+    }
+    fn jz(&mut self, target: usize) {
+        self.asm.push(vec![], Fin::CJmp(vreg("ZF", 1), target));
+    }
+    fn test_rr(&mut self, reg: &str) {
+        let t = self.asm.tmp(8);
+        self.asm.emit(vec![
+            op1("COPY", vreg("CF", 1), vconst(0, 1)),
+            op1("COPY", vreg("OF", 1), vconst(0, 1)),
+            op2("INT_AND", t.clone(), r8(reg), r8(reg)),
+            op2("INT_SLESS", vreg("SF", 1), t.clone(), vconst(0, 8)),
+            op2("INT_EQUAL", vreg("ZF", 1), t, vconst(0, 8)),
+        ]);
+    }
+    fn cmp_slot_imm(&mut self, pg: &mut Pg, k: usize, imm: u64) {
+        if pg.rng.bool() {
+            self.ld_slot("RAX", k);
+            let ops = self.cmp_ops(r8("RAX"), vconst(imm, 8), 8);
+            self.asm.emit(ops);
+        } else {
+            // cmp dword ptr [rbp-x], imm
+            let t = self.asm.tmp(8);
+            let t4 = self.asm.tmp(4);
+            let mut ops = vec![op2("INT_ADD", t.clone(), r8("RBP"), vconst_i(Self::slot_off(k), 8)), op_load(t4.clone(), t)];
+            ops.extend(self.cmp_ops(t4, vconst(imm, 4), 4));
+            self.asm.emit(ops);
+        }
+    }
+    fn call_addr(&mut self, pg: &Pg, target: u64, returns: bool) {
+        let ret = self.here(pg) + 4;
+        self.asm.push(vec![op2("INT_SUB", r8("RSP"), r8("RSP"), vconst(8, 8)), op_store(r8("RSP"), vconst(ret, 8))], Fin::Call(target, returns));
+    }
+    /// call an extern symbol by name (no-op if the symbol table of this mode lacks it)
+    fn call_ext(&mut self, pg: &mut Pg, name: &str) -> bool {
+        let Some(i) = pg.ext_idx(name) else { return false };
+        let addr = pg.ext_addr(name).unwrap();
+        let noret = pg.ext[i].3;
+        // Ghidra gives no-return calls no return target most of the time
+        let returns = !noret || pg.rng.chance(1, 4);
+        self.call_addr(pg, addr, returns);
+        true
+    }
+    fn prologue(&mut self, pg: &mut Pg, nargs: usize) {
+        self.asm.emit(vec![op2("INT_SUB", r8("RSP"), r8("RSP"), vconst(8, 8)), op_store(r8("RSP"), r8("RBP"))]);
+        self.mov_rr("RBP", "RSP");
+        let f = self.frame;
+        self.asm.emit(vec![
+            op2("INT_LESS", vreg("CF", 1), r8("RSP"), vconst(f, 8)),
+            op2("INT_SBORROW", vreg("OF", 1), r8("RSP"), vconst(f, 8)),
+            op2("INT_SUB", r8("RSP"), r8("RSP"), vconst(f, 8)),
+            op2("INT_SLESS", vreg("SF", 1), r8("RSP"), vconst(0, 8)),
+            op2("INT_EQUAL", vreg("ZF", 1), r8("RSP"), vconst(0, 8)),
+        ]);
+        if pg.rng.chance(1, 6) {
+            // and rsp, -16
+            self.asm.emit(vec![
+                op1("COPY", vreg("CF", 1), vconst(0, 1)),
+                op1("COPY", vreg("OF", 1), vconst(0, 1)),
+                op2("INT_AND", r8("RSP"), r8("RSP"), vconst_i(-16, 8)),
+                op2("INT_SLESS", vreg("SF", 1), r8("RSP"), vconst(0, 8)),
+                op2("INT_EQUAL", vreg("ZF", 1), r8("RSP"), vconst(0, 8)),
+            ]);
+            pg.feat("stack-align");
+        }
+        if nargs >= 1 {
+            self.st("RBP", ARG0_OFF, r8("RDI"));
+        }
+        if nargs >= 2 {
+            self.st("RBP", ARG1_OFF, r8("RSI"));
+        }
+    }
+    fn epilogue(&mut self) {
+        // leave ; ret
+        self.asm.emit(vec![op1("COPY", r8("RSP"), r8("RBP")), op_load(r8("RBP"), r8("RSP")), op2("INT_ADD", r8("RSP"), r8("RSP"), vconst(8, 8))]);
+        self.asm.push(vec![op_load(r8("RIP"), r8("RSP")), op2("INT_ADD", r8("RSP"), r8("RSP"), vconst(8, 8))], Fin::Ret(r8("RIP")));
+    }
+
+    // ---- argument helpers ----------------------------------------------------------
+    fn heap_slot(&self, want: SlotK) -> Option<usize> {
+        self.slots.iter().position(|s| *s == want)
+    }
+    /// put some pointer into `reg`; returns a short description
+    fn ptr_arg(&mut self, pg: &mut Pg, reg: &str, writable_only: bool) -> &'static str {
+        let choice = pg.rng.below(if writable_only { 5 } else { 7 });
+        match choice {
+            0 | 1 => {
+                self.lea(reg, "RBP", BUF_OFF + 8 * pg.rng.below(3) as i64);
+                "stack"
+            }
+            2 => {
+                if let Some(k) = self.heap_slot(SlotK::Heap).or(self.heap_slot(SlotK::Freed)) {
+                    self.ld_slot(reg, k);
+                    "heap"
+                } else {
+                    self.lea(reg, "RBP", BUF_OFF);
+                    "stack"
+                }
+            }
+            3 => {
+                let a = pg.lay.bss_base + 8 * pg.rng.below(8);
+                self.mov_ri(pg, reg, a);
+                "bss"
+            }
+            4 => {
+                self.ld("RAX", "RBP", ARG0_OFF);
+                self.mov_rr(reg, "RAX");
+                "param"
+            }
+            5 => {
+                let a = pg.any_ro();
+                self.mov_ri(pg, reg, a);
+                "rodata"
+            }
+            _ => {
+                self.ld_global(reg, pg.lay.data_base + DATA_PTRS + 8 * pg.rng.below(3));
+                "global-ptr"
+            }
+        }
+    }
+    fn int_arg(&mut self, pg: &mut Pg, reg: &str) {
+        match pg.rng.below(4) {
+            0 => {
+                let k = pg.rng.usize_below(6);
+                self.ld_slot(reg, k);
+            }
+            1 => {
+                let v = *pg.rng.pick(&[0u64, 1, 8, 16, 0x40, 0x100, 0x1000, 0x200000]);
+                self.mov_ri(pg, reg, v);
+            }
+            2 => self.ld_global(reg, pg.lay.data_base + DATA_INTS + 8 * pg.rng.below(6)),
+            _ => {
+                self.ld32(reg, "RBP", Self::slot_off(pg.rng.usize_below(6)), pg.rng.bool());
+            }
+        }
+    }
+    fn free_slot_for_result(&mut self, pg: &mut Pg) -> usize {
+        pg.rng.usize_below(6)
+    }
+}
+
+const CWE676_USER: &[&str] = &["strcpy", "strlen", "strcat", "strncpy", "memcpy", "memset", "sprintf", "snprintf", "sscanf", "scanf"];
+const CWE676_LKM: &[&str] = &["memcmp", "memcpy", "memset", "strcat", "strcpy", "strlen", "strncpy"];
+
+impl Fg {
+    fn note_call(&mut self, pg: &mut Pg, name: &str) {
+        let list = if pg.lkm() { CWE676_LKM } else { CWE676_USER };
+        if list.contains(&name) {
+            pg.expect.insert("CWE676".into());
+        }
+    }
+    fn call_named(&mut self, pg: &mut Pg, name: &str) -> bool {
+        if self.call_ext(pg, name) {
+            self.note_call(pg, name);
+            true
+        } else {
+            false
+        }
+    }
+    fn store_result(&mut self, pg: &mut Pg, kind: SlotK) -> usize {
+        let k = self.free_slot_for_result(pg);
+        self.st_slot(k, "RAX");
+        self.slots[k] = kind;
+        k
+    }
+
+    fn t_alloc(&mut self, pg: &mut Pg) {
+        let lkm = pg.lkm();
+        let mut size8 = false;
+        // size expression
+        match pg.rng.below(6) {
+            0 => {
+                // multiplication right before the call (CWE190 pattern)
+                self.int_arg(pg, "RDI");
+                let c = *pg.rng.pick(&[4u64, 8, 24, 0x1000]);
+                let mn = if pg.rng.bool() { "INT_MULT" } else { "INT_LEFT" };
+                let src = if mn == "INT_LEFT" { vconst(3, 8) } else { vconst(c, 8) };
+                self.asm.emit(vec![op2(mn, r8("RDI"), r8("RDI"), src)]);
+                pg.feat("alloc-mult");
+            }
+            1 => {
+                let v = *pg.rng.pick(&[0x200000u64, 0x7fffffff, 0x4000000]);
+                self.mov_ri(pg, "RDI", v);
+                pg.feat("alloc-huge");
+            }
+            2 => {
+                self.mov_ri(pg, "RDI", 8);
+                size8 = true;
+            }
+            3 => self.int_arg(pg, "RDI"),
+            _ => {
+                let v = *pg.rng.pick(&[16u64, 24, 32, 64, 100]);
+                self.mov_ri(pg, "RDI", v);
+            }
+        }
+        let name = if lkm {
+            self.mov_ri(pg, "RSI", 0xcc0);
+            "__kmalloc"
+        } else {
+            match pg.rng.below(8) {
+                0 => {
+                    self.mov_rr("RSI", "RDI");
+                    self.mov_ri(pg, "RDI", 4);
+                    "calloc"
+                }
+                1 => {
+                    self.mov_rr("RSI", "RDI");
+                    self.ptr_arg(pg, "RDI", true);
+                    "realloc"
+                }
+                _ => "malloc",
+            }
+        };
+        if !self.call_named(pg, name) {
+            return;
+        }
+        if size8 && name == "malloc" {
+            // malloc(sizeof(void*)) with the constant set in the block of the call
+            pg.expect.insert("CWE467".into());
+        }
+        let k = self.store_result(pg, SlotK::Heap);
+        pg.feat("alloc");
+        if pg.rng.chance(1, 2) {
+            // NULL check
+            self.ld_slot("RAX", k);
+            self.test_rr("RAX");
+            let target = if pg.rng.bool() { self.exit_label } else { self.asm.label() };
+            self.jz(target);
+            if target != self.exit_label {
+                self.t_use_ptr(pg);
+                self.asm.bind(target);
+            }
+            pg.feat("null-check");
+        } else if pg.rng.chance(2, 3) {
+            // immediate unchecked use
+            self.ld_slot("RAX", k);
+            let off = *pg.rng.pick(&[0i64, 8, 16]);
+            self.st("RAX", off, vconst(pg.rng.below(100), 8));
+            pg.feat("unchecked-use");
+        }
+    }
+
+    fn t_use_ptr(&mut self, pg: &mut Pg) {
+        let Some(k) = self.heap_slot(SlotK::Heap).or(self.heap_slot(SlotK::Freed)).or(self.heap_slot(SlotK::Str)) else {
+            // use the parameter as a pointer
+            self.ld("RAX", "RBP", ARG0_OFF);
+            self.ld("RDX", "RAX", 8);
+            return;
+        };
+        self.ld_slot("RAX", k);
+        let off = *pg.rng.pick(&[0i64, 0, 8, 16, 24, 64, 0x400, -8]);
+        match pg.rng.below(4) {
+            0 => self.ld("RDX", "RAX", off),
+            1 => self.st("RAX", off, r8("RDX")),
+            2 => self.st("RAX", off, vconst(0x41, 1)),
+            _ => {
+                // byte load + zero extension: movzx edx, byte ptr [rax+off]
+                let t = self.asm.tmp(8);
+                let t1 = self.asm.tmp(1);
+                self.asm.emit(vec![op2("INT_ADD", t.clone(), r8("RAX"), vconst_i(off, 8)), op_load(t1.clone(), t), op1("INT_ZEXT", vreg("EDX", 4), t1), op1("INT_ZEXT", r8("RDX"), vreg("EDX", 4))]);
+            }
+        }
+        pg.feat("ptr-use");
+    }
+
+    fn t_free(&mut self, pg: &mut Pg) {
+        let k = match self.heap_slot(SlotK::Heap) {
+            Some(k) => k,
+            None => match self.heap_slot(SlotK::Freed) {
+                Some(k) if pg.rng.chance(1, 3) => {
+                    pg.feat("double-free");
+                    k
+                }
+                _ => return,
+            },
+        };
+        self.ld_slot("RDI", k);
+        let name = if pg.lkm() { "kfree" } else { "free" };
+        if self.call_named(pg, name) {
+            self.slots[k] = SlotK::Freed;
+            pg.feat("free");
+            if pg.rng.chance(1, 3) {
+                self.t_use_ptr(pg);
+                pg.feat("use-after-free");
+            }
+        }
+    }
+
+    fn t_string(&mut self, pg: &mut Pg) {
+        match pg.rng.below(5) {
+            0 => {
+                self.ptr_arg(pg, "RSI", false);
+                self.ptr_arg(pg, "RDI", true);
+                self.call_named(pg, "strcpy");
+            }
+            1 => {
+                self.ptr_arg(pg, "RSI", false);
+                self.ptr_arg(pg, "RDI", true);
+                self.call_named(pg, "strcat");
+            }
+            2 => {
+                self.ptr_arg(pg, "RDI", false);
+                if self.call_named(pg, "strlen") {
+                    self.store_result(pg, SlotK::Int);
+                }
+            }
+            3 => {
+                self.ptr_arg(pg, "RSI", false);
+                self.ptr_arg(pg, "RDI", true);
+                let n = *pg.rng.pick(&[8u64, 16, 0x40, 0x100]);
+                self.mov_ri(pg, "RDX", n);
+                let name = *pg.rng.pick(&["memcpy", "strncpy", "memcpy"]);
+                if self.call_named(pg, name) && n == 8 {
+                    pg.expect.insert("CWE467".into());
+                }
+            }
+            _ => {
+                self.ptr_arg(pg, "RDI", true);
+                self.mov_ri(pg, "RSI", 0);
+                if pg.rng.bool() {
+                    let n = *pg.rng.pick(&[8u64, 32, 0x40, 0x1000]);
+                    self.mov_ri(pg, "RDX", n);
+                } else {
+                    self.int_arg(pg, "RDX");
+                }
+                self.call_named(pg, "memset");
+            }
+        }
+        pg.feat("string-call");
+    }
+
+    fn fmt_arg(&mut self, pg: &mut Pg, reg: &str) {
+        match pg.rng.below(6) {
+            0 => {
+                // writable global format string
+                let a = pg.lay.data_base + if pg.rng.bool() { DATA_WSTR0 } else { DATA_WSTR1 };
+                self.mov_ri(pg, reg, a);
+                pg.feat("fmt-writable");
+            }
+            1 => {
+                self.ptr_arg(pg, reg, true);
+                pg.feat("fmt-nonconst");
+            }
+            _ => {
+                let s = *pg.rng.pick(&["%s", "%d\n", "hello %s %d\n", "cat %s", "%s/%s.%d", "id=%u name=%s\n", "%x%x%n", "echo %s"]);
+                let a = pg.ro(s);
+                self.mov_ri(pg, reg, a);
+            }
+        }
+    }
+
+    fn t_format(&mut self, pg: &mut Pg) {
+        let lkm = pg.lkm();
+        match pg.rng.below(4) {
+            0 => {
+                self.int_arg(pg, "RSI");
+                self.fmt_arg(pg, "RDI");
+                self.asm.emit(vec![op1("COPY", vreg("EAX", 4), vconst(0, 4)), op1("INT_ZEXT", r8("RAX"), vreg("EAX", 4))]);
+                self.call_named(pg, if lkm { "_printk" } else { "printf" });
+            }
+            1 => {
+                self.ptr_arg(pg, "RDX", false);
+                self.fmt_arg(pg, "RSI");
+                self.ptr_arg(pg, "RDI", true);
+                self.call_named(pg, "sprintf");
+            }
+            2 => {
+                self.ptr_arg(pg, "RCX", false);
+                self.fmt_arg(pg, "RDX");
+                self.mov_ri(pg, "RSI", 0x40);
+                self.ptr_arg(pg, "RDI", true);
+                self.call_named(pg, "snprintf");
+            }
+            _ => {
+                if lkm {
+                    return;
+                }
+                if pg.rng.bool() {
+                    self.lea("RSI", "RBP", BUF_OFF);
+                    let a = pg.ro("%10s");
+                    self.mov_ri(pg, "RDI", a);
+                    self.call_named(pg, "scanf");
+                } else {
+                    self.lea("RDX", "RBP", Self::slot_off(2));
+                    let a = pg.ro("%d\n");
+                    self.mov_ri(pg, "RSI", a);
+                    self.ptr_arg(pg, "RDI", false);
+                    self.call_named(pg, "sscanf");
+                }
+            }
+        }
+        pg.feat("format-call");
+    }
+
+    fn t_system(&mut self, pg: &mut Pg) {
+        if pg.lkm() {
+            return;
+        }
+        match pg.rng.below(4) {
+            0 => {
+                let a = pg.ro("ls -la /tmp");
+                self.mov_ri(pg, "RDI", a);
+            }
+            1 => {
+                // sprintf(buf, "cat %s", user) ; system(buf)
+                self.ptr_arg(pg, "RDX", false);
+                let s = *pg.rng.pick(&["cat %s", "echo %s"]);
+                let a = pg.ro(s);
+                self.mov_ri(pg, "RSI", a);
+                self.lea("RDI", "RBP", BUF_OFF);
+                self.call_named(pg, "sprintf");
+                self.lea("RDI", "RBP", BUF_OFF);
+                pg.feat("cmd-injection");
+            }
+            2 => {
+                self.ptr_arg(pg, "RDI", false);
+            }
+            _ => {
+                // drop privileges, then system()
+                self.mov_ri(pg, "RDI", 0);
+                if self.call_named(pg, "setuid") {
+                    self.calls_priv = true;
+                }
+                let a = pg.ro("/bin/sh");
+                self.mov_ri(pg, "RDI", a);
+            }
+        }
+        if self.call_named(pg, "system") {
+            self.calls_system = true;
+            if pg.rng.bool() {
+                self.store_result(pg, SlotK::Int);
+            }
+        }
+        pg.feat("system");
+    }
+
+    fn t_misc_syscalls(&mut self, pg: &mut Pg) {
+        if pg.lkm() {
+            // kernel flavoured: copy_from_user with ignored / checked result, locking
+            match pg.rng.below(3) {
+                0 => {
+                    let n = *pg.rng.pick(&[8u64, 0x40, 0x200]);
+                    self.mov_ri(pg, "RDX", n);
+                    self.ld("RSI", "RBP", ARG1_OFF);
+                    self.ptr_arg(pg, "RDI", true);
+                    let name = if pg.rng.bool() { "_copy_from_user" } else { "_copy_to_user" };
+                    if self.call_named(pg, name) && pg.rng.bool() {
+                        self.test_rr("RAX");
+                        let l = self.exit_label;
+                        self.jcc(pg, l);
+                    }
+                }
+                1 => {
+                    self.mov_ri(pg, "RDI", pg.lay.bss_base + 0x40);
+                    self.call_named(pg, "mutex_lock");
+                    self.t_use_ptr(pg);
+                    self.mov_ri(pg, "RDI", pg.lay.bss_base + 0x40);
+                    self.call_named(pg, "mutex_unlock");
+                }
+                _ => {
+                    self.mov_ri(pg, "RSI", 0xcc0);
+                    self.ptr_arg(pg, "RDI", false);
+                    if self.call_named(pg, "kstrdup") {
+                        self.store_result(pg, SlotK::Heap);
+                    }
+                }
+            }
+            return;
+        }
+        match pg.rng.below(9) {
+            0 => {
+                let a = pg.ro("/var/jail");
+                self.mov_ri(pg, "RDI", a);
+                self.call_named(pg, "chroot");
+                pg.feat("chroot");
+                if pg.rng.chance(1, 3) {
+                    let a = pg.ro("/");
+                    self.mov_ri(pg, "RDI", a);
+                    if self.call_named(pg, "chdir") {
+                        pg.has_chdir_symbol_calls = true;
+                    }
+                }
+            }
+            1 => {
+                let v = *pg.rng.pick(&[0o666u64, 0o755, 0o644, 0o22, 0o77, 0o700]);
+                // mov edi, imm ; call umask   (argument visible in the block of the call)
+                self.asm.emit(vec![op1("COPY", vreg("EDI", 4), vconst(v, 4)), op1("INT_ZEXT", r8("RDI"), vreg("EDI", 4))]);
+                if self.call_named(pg, "umask") && v > 0o177 {
+                    pg.expect.insert("CWE560".into());
+                }
+                pg.feat("umask");
+            }
+            2 => {
+                self.lea("RDX", "RBP", BUF_OFF);
+                self.mov_ri(pg, "RSI", 0x5401);
+                self.int_arg(pg, "RDI");
+                if self.call_named(pg, "ioctl") {
+                    pg.expect.insert("CWE782".into());
+                }
+            }
+            3 => {
+                // access(path, R_OK) ... open(path, O_RDONLY)
+                let a = pg.ro("/tmp/file.txt");
+                self.mov_ri(pg, "RSI", 4);
+                self.mov_ri(pg, "RDI", a);
+                let c1 = self.call_named(pg, "access");
+                if pg.rng.bool() {
+                    self.store_result(pg, SlotK::Int);
+                }
+                self.mov_ri(pg, "RSI", 0);
+                self.mov_ri(pg, "RDI", a);
+                let c2 = self.call_named(pg, "open");
+                if c1 && c2 {
+                    pg.expect.insert("CWE367".into());
+                }
+                self.store_result(pg, SlotK::Int);
+                pg.feat("toctou");
+            }
+            4 => {
+                if pg.rng.bool() {
+                    self.mov_ri(pg, "RDI", 0);
+                    self.call_named(pg, "time");
+                    self.mov_rr("RDI", "RAX");
+                    self.call_named(pg, "srand");
+                    pg.feat("srand-time");
+                }
+                if self.call_named(pg, "rand") {
+                    self.store_result(pg, SlotK::Int);
+                }
+                pg.feat("rand");
+            }
+            5 => {
+                // read(fd, buf, n) with the result ignored or checked
+                let n = *pg.rng.pick(&[0x10u64, 0x40, 0x400]);
+                self.mov_ri(pg, "RDX", n);
+                self.ptr_arg(pg, "RSI", true);
+                self.int_arg(pg, "RDI");
+                let name = *pg.rng.pick(&["read", "write", "fgets"]);
+                if self.call_named(pg, name) && pg.rng.bool() {
+                    self.test_rr("RAX");
+                    let l = self.exit_label;
+                    self.jcc(pg, l);
+                }
+                pg.feat("retval-ignored-or-checked");
+            }
+            6 => {
+                let a = pg.ro("PATH");
+                self.mov_ri(pg, "RDI", a);
+                if self.call_named(pg, "getenv") {
+                    let k = self.store_result(pg, SlotK::Str);
+                    if pg.rng.bool() {
+                        self.ld_slot("RDI", k);
+                        if self.call_named(pg, "strdup") {
+                            self.store_result(pg, SlotK::Heap);
+                        }
+                    }
+                }
+            }
+            7 => {
+                self.mov_ri(pg, "RCX", 0);
+                self.mov_ri(pg, "RDX", 0x40);
+                self.lea("RSI", "RBP", BUF_OFF);
+                self.int_arg(pg, "RDI");
+                self.call_named(pg, "recv");
+                self.lea("RDI", "RBP", BUF_OFF);
+                if self.call_named(pg, "atoi") {
+                    self.store_result(pg, SlotK::Int);
+                }
+                pg.feat("user-input");
+            }
+            _ => {
+                let a = pg.any_ro();
+                self.mov_ri(pg, "RDI", a);
+                self.call_named(pg, "puts");
+            }
+        }
+    }
+
+    fn t_plain(&mut self, pg: &mut Pg) {
+        match pg.rng.below(7) {
+            0 => {
+                let k = pg.rng.usize_below(6);
+                let v = pg.rng.biased(8) as u64;
+                self.st("RBP", Self::slot_off(k), vconst(v, 8));
+                self.slots[k] = SlotK::Int;
+            }
+            1 => {
+                let (a, b, c) = (pg.rng.usize_below(6), pg.rng.usize_below(6), pg.rng.usize_below(6));
+                self.ld_slot("RAX", a);
+                self.ld_slot("RDX", b);
+                self.alu(pg, "RAX", r8("RDX"));
+                if self.slots[c] == SlotK::Int || pg.rng.chance(1, 4) {
+                    self.st_slot(c, "RAX");
+                    self.slots[c] = SlotK::Int;
+                }
+            }
+            2 => {
+                // 32 bit arithmetic with sub registers
+                let k = pg.rng.usize_below(6);
+                self.ld32("RAX", "RBP", Self::slot_off(k), false);
+                let mn = *pg.rng.pick(&["INT_ADD", "INT_MULT", "INT_LEFT", "INT_SUB", "INT_RIGHT"]);
+                let c = pg.rng.below(9);
+                self.asm.emit(vec![op2(mn, vreg("EAX", 4), vreg("EAX", 4), vconst(c, 4)), op1("INT_ZEXT", r8("RAX"), vreg("EAX", 4))]);
+                if pg.rng.bool() {
+                    // movsx / movzx from the low byte
+                    let (mn2, _) = *pg.rng.pick(&[("INT_SEXT", 0), ("INT_ZEXT", 0)]);
+                    self.asm.emit(vec![op1(mn2, r8("RCX"), vreg("AL", 1))]);
+                }
+                let t = self.asm.tmp(8);
+                self.asm.emit(vec![op2("INT_ADD", t.clone(), r8("RBP"), vconst_i(Self::slot_off(k), 8)), op_store(t, vreg("EAX", 4))]);
+                pg.feat("subregister-ops");
+            }
+            3 => {
+                // global read-modify-write
+                let a = pg.lay.data_base + DATA_INTS + 8 * pg.rng.below(6);
+                self.ld_global("RAX", a);
+                let c = pg.rng.below(16);
+                self.alu(pg, "RAX", vconst(c, 8));
+                self.st_global(a, r8("RAX"));
+                pg.feat("global-rw");
+            }
+            4 => {
+                // read-only table lookup / bss store
+                let a = pg.lay.rodata_base + RODATA_LEN - 0x40 + 8 * pg.rng.below(8);
+                self.ld_global("RDX", a);
+                self.st_global(pg.lay.bss_base + 8 * pg.rng.below(16), r8("RDX"));
+                pg.feat("global-rw");
+            }
+            5 => {
+                // store through a pointer kept in a global pointer slot
+                self.ld_global("RAX", pg.lay.data_base + DATA_PTRS + 8);
+                self.st("RAX", 8 * pg.rng.below(4) as i64, r8("RCX"));
+            }
+            _ => {
+                // write into the local buffer, sometimes past its end
+                let off = BUF_OFF + *pg.rng.pick(&[0i64, 8, 0x38, 0x40, 0x48, 0x90]);
+                self.st("RBP", off, vconst(0, 8));
+                pg.feat("stack-buffer-write");
+            }
+        }
+    }
+
+    /// A long dependent arithmetic chain on one register (expression depth around the propagation
+    /// limit of 10), a value derived from it, a block boundary, then a store / allocation using it.
+    fn t_chain(&mut self, pg: &mut Pg) {
+        let (a, b, c, d) = (pg.rng.usize_below(6), pg.rng.usize_below(6), pg.rng.usize_below(6), pg.rng.usize_below(6));
+        self.ld_slot("RSI", a);
+        self.ld_slot("RCX", b);
+        if pg.rng.chance(1, 4) {
+            self.ld_slot("RAX", c);
+        } else {
+            // start from an assignment so that the propagation table knows an expression for RAX
+            self.asm.emit(vec![op2("INT_ADD", r8("RAX"), r8("RSI"), r8("RCX"))]);
+        }
+        let n = 6 + pg.rng.usize_below(10);
+        for i in 0..n {
+            let (mn, src) = match pg.rng.below(7) {
+                0 => ("INT_MULT", vconst(*pg.rng.pick(&[3u64, 5, 7, 24]), 8)),
+                1 => ("INT_XOR", r8("RSI")),
+                2 => ("INT_ADD", r8("RCX")),
+                3 => ("INT_SUB", r8("RSI")),
+                4 => ("INT_LEFT", vconst(1 + (i as u64 % 3), 8)),
+                5 => ("INT_OR", r8("RCX")),
+                _ => ("INT_MULT", r8("RSI")),
+            };
+            self.asm.emit(vec![op2(mn, r8("RAX"), r8("RAX"), src)]);
+        }
+        self.lea("RDX", "RAX", 1);
+        if pg.rng.chance(3, 4) {
+            // block boundary: if (..) r9 = r9;
+            let k = pg.rng.usize_below(6);
+            let t = self.asm.tmp(8);
+            let t4 = self.asm.tmp(4);
+            let mut ops = vec![op2("INT_ADD", t.clone(), r8("RBP"), vconst_i(Self::slot_off(k), 8)), op_load(t4.clone(), t)];
+            ops.extend(self.cmp_ops(t4, vconst(7, 4), 4));
+            self.asm.emit(ops);
+            let l = self.asm.label();
+            self.jz(l);
+            self.asm.emit(vec![op1("COPY", r8("R9"), r8("R9"))]);
+            self.asm.bind(l);
+        }
+        self.st_slot(d, "RDX");
+        self.slots[d] = SlotK::Int;
+        if pg.rng.chance(2, 3) {
+            self.mov_rr("RDI", "RDX");
+            let name = if pg.lkm() {
+                self.asm.emit(vec![op1("COPY", r8("RSI"), vconst(0xcc0, 8))]);
+                "__kmalloc"
+            } else {
+                "malloc"
+            };
+            if self.call_named(pg, name) {
+                self.store_result(pg, SlotK::Heap);
+            }
+        }
+        pg.feat("long-expression-chain");
+    }
+
+    fn t_call(&mut self, pg: &mut Pg) {
+        match pg.rng.below(5) {
+            0 => {
+                // indirect call through a global function pointer or a register
+                if pg.rng.bool() {
+                    self.ld_global("RAX", pg.lay.data_base + DATA_PTRS + 16);
+                } else {
+                    self.ld("RAX", "RBP", ARG1_OFF);
+                }
+                self.int_arg(pg, "RDI");
+                let ret = self.here(pg) + 4;
+                self.asm.push(vec![op2("INT_SUB", r8("RSP"), r8("RSP"), vconst(8, 8)), op_store(r8("RSP"), vconst(ret, 8))], Fin::CallInd(r8("RAX"), true));
+                pg.feat("indirect-call");
+            }
+            _ => {
+                let callee = if pg.rng.chance(1, 8) { self.fidx } else { pg.rng.usize_below(pg.n_funcs) };
+                if pg.rng.bool() {
+                    self.ptr_arg(pg, "RDI", false);
+                } else {
+                    self.int_arg(pg, "RDI");
+                }
+                if pg.rng.bool() {
+                    self.ptr_arg(pg, "RSI", false);
+                } else {
+                    self.int_arg(pg, "RSI");
+                }
+                let a = pg.fn_addr(callee);
+                self.call_addr(pg, a, true);
+                if callee == self.fidx {
+                    pg.feat("recursion");
+                }
+                if pg.rng.bool() {
+                    let kind = if pg.rng.chance(1, 3) { SlotK::Heap } else { SlotK::Int };
+                    self.store_result(pg, kind);
+                }
+                pg.feat("internal-call");
+            }
+        }
+    }
+
+    fn t_if(&mut self, pg: &mut Pg, depth: u32) {
+        let k = pg.rng.usize_below(6);
+        let imm = *pg.rng.pick(&[0u64, 1, 10, 0x40, 0xffff_ffff]);
+        self.cmp_slot_imm(pg, k, imm);
+        let l_else = self.asm.label();
+        self.jcc(pg, l_else);
+        let saved = self.slots;
+        let n = 1 + pg.rng.usize_below(3);
+        self.stmts(pg, depth + 1, n);
+        if pg.rng.chance(1, 3) {
+            let l_end = self.asm.label();
+            self.asm.push(vec![], Fin::Jmp(l_end));
+            self.asm.bind(l_else);
+            self.slots = saved;
+            let n = 1 + pg.rng.usize_below(2);
+            self.stmts(pg, depth + 1, n);
+            self.asm.bind(l_end);
+        } else {
+            self.asm.bind(l_else);
+        }
+        // a nop-like instruction so that the join label always has an instruction
+        self.asm.emit(vec![op1("COPY", r8("RAX"), r8("RAX"))]);
+        pg.feat("if");
+    }
+
+    fn t_loop(&mut self, pg: &mut Pg, depth: u32) {
+        let k = pg.rng.usize_below(6);
+        self.slots[k] = SlotK::Int;
+        let head = self.asm.label();
+        let end = self.asm.label();
+        let bound_const = pg.rng.chance(2, 3);
+        let bound = *pg.rng.pick(&[4u64, 10, 0x40, 0x100]);
+        let do_while = pg.rng.chance(1, 3);
+        self.st("RBP", Self::slot_off(k), vconst(0, 8));
+        self.asm.bind(head);
+        if !do_while {
+            if bound_const {
+                self.cmp_slot_imm(pg, k, bound);
+            } else {
+                self.ld_slot("RAX", k);
+                self.ld("RDX", "RBP", ARG1_OFF);
+                let ops = self.cmp_ops(r8("RAX"), r8("RDX"), 8);
+                self.asm.emit(ops);
+            }
+            self.jcc(pg, end);
+        }
+        // body
+        if pg.rng.chance(2, 3) {
+            // buf[i] = x   (indexed stack or heap write)
+            if let (Some(h), true) = (self.heap_slot(SlotK::Heap), pg.rng.bool()) {
+                self.ld_slot("RAX", h);
+            } else {
+                self.lea("RAX", "RBP", BUF_OFF);
+            }
+            self.ld_slot("RCX", k);
+            let t = self.asm.tmp(8);
+            let t2 = self.asm.tmp(8);
+            let scale = *pg.rng.pick(&[1u64, 4, 8]);
+            self.asm.emit(vec![op2("INT_MULT", t.clone(), r8("RCX"), vconst(scale, 8)), op2("INT_ADD", t2.clone(), r8("RAX"), t), op_store(t2, vreg(rlow8("RDX"), 1))]);
+            pg.feat("indexed-write-in-loop");
+        }
+        let saved_budget = self.budget;
+        self.budget = self.budget.min(3);
+        let n = pg.rng.usize_below(3);
+        self.stmts(pg, depth + 1, n);
+        self.budget = saved_budget - 2;
+        // i += step
+        self.ld_slot("RAX", k);
+        let step = *pg.rng.pick(&[1u64, 1, 2, 8]);
+        self.asm.emit(vec![
+            op2("INT_CARRY", vreg("CF", 1), r8("RAX"), vconst(step, 8)),
+            op2("INT_SCARRY", vreg("OF", 1), r8("RAX"), vconst(step, 8)),
+            op2("INT_ADD", r8("RAX"), r8("RAX"), vconst(step, 8)),
+            op2("INT_SLESS", vreg("SF", 1), r8("RAX"), vconst(0, 8)),
+            op2("INT_EQUAL", vreg("ZF", 1), r8("RAX"), vconst(0, 8)),
+        ]);
+        self.st_slot(k, "RAX");
+        if do_while {
+            self.cmp_slot_imm(pg, k, bound);
+            self.jcc(pg, head);
+        } else {
+            self.asm.push(vec![], Fin::Jmp(head));
+        }
+        self.asm.bind(end);
+        self.asm.emit(vec![op1("COPY", r8("RAX"), r8("RAX"))]);
+        pg.loops += 1;
+        pg.feat(if do_while { "do-while" } else { "while" });
+    }
+
+    fn t_switch(&mut self, pg: &mut Pg, depth: u32) {
+        let k = pg.rng.usize_below(6);
+        let ncases = 2 + pg.rng.usize_below(3);
+        self.ld32("RAX", "RBP", Self::slot_off(k), false);
+        let ops = self.cmp_ops(vreg("EAX", 4), vconst(ncases as u64 - 1, 4), 4);
+        self.asm.emit(ops);
+        let l_default = self.asm.label();
+        let l_end = self.asm.label();
+        // ja default
+        let t = self.asm.tmp(1);
+        let t2 = self.asm.tmp(1);
+        self.asm.push(vec![op2("BOOL_OR", t.clone(), vreg("CF", 1), vreg("ZF", 1)), op1("BOOL_NEGATE", t2.clone(), t)], Fin::CJmp(t2, l_default));
+        let cases: Vec<usize> = (0..ncases).map(|_| self.asm.label()).collect();
+        let table = pg.lay.rodata_base + RODATA_LEN - 0x40;
+        let (a, b, c) = (self.asm.tmp(8), self.asm.tmp(8), self.asm.tmp(8));
+        self.asm.push(vec![op2("INT_MULT", a.clone(), r8("RAX"), vconst(8, 8)), op2("INT_ADD", b.clone(), a, vconst(table, 8)), op_load(c.clone(), b)], Fin::JmpInd(c, cases.clone()));
+        let saved = self.slots;
+        for l in cases {
+            self.asm.bind(l);
+            self.slots = saved;
+            self.stmts(pg, depth + 1, 1);
+            self.asm.push(vec![op1("COPY", r8("RAX"), r8("RAX"))], Fin::Jmp(l_end));
+        }
+        self.slots = saved;
+        self.asm.bind(l_default);
+        self.asm.emit(vec![op1("COPY", r8("RAX"), vconst(0, 8))]);
+        self.asm.bind(l_end);
+        self.asm.emit(vec![op1("COPY", r8("RAX"), r8("RAX"))]);
+        pg.feat("switch");
+    }
+
+    fn t_exit(&mut self, pg: &mut Pg) {
+        // guarded early exit: if (cond) { return | exit() | jump into another function's block }
+        let k = pg.rng.usize_below(6);
+        let c = pg.rng.below(4);
+        self.cmp_slot_imm(pg, k, c);
+        let skip = self.asm.label();
+        self.jcc(pg, skip);
+        let foreign_p = if pg.opts.order_bias { 2 } else { 5 };
+        if !pg.foreign_targets.is_empty() && pg.rng.chance(1, foreign_p) {
+            let t = *pg.rng.pick(&pg.foreign_targets);
+            self.asm.push(vec![op1("COPY", r8("RAX"), vconst(1, 8))], Fin::JmpForeign(t));
+            pg.feat("jump-into-other-function");
+        } else if pg.rng.chance(1, 3) {
+            self.mov_ri(pg, "RDI", 1);
+            let name = if pg.lkm() { "panic" } else if pg.rng.bool() { "exit" } else { "abort" };
+            if !self.call_named(pg, name) {
+                let l = self.exit_label;
+                self.asm.push(vec![], Fin::Jmp(l));
+            } else {
+                pg.feat("noreturn-call");
+            }
+        } else {
+            let l = self.exit_label;
+            self.asm.push(vec![op1("COPY", r8("RAX"), vconst_i(-1, 8))], Fin::Jmp(l));
+        }
+        self.asm.bind(skip);
+        self.asm.emit(vec![op1("COPY", r8("RAX"), r8("RAX"))]);
+    }
+
+    fn stmt(&mut self, pg: &mut Pg, depth: u32) {
+        self.budget -= 1;
+        let structured = depth < 2 && self.budget > 2;
+        let trig = pg.opts.trigger_bias;
+        let r = pg.rng.below(if structured { 40 } else { 30 });
+        match r {
+            0..=4 => self.t_plain(pg),
+            5..=8 => self.t_alloc(pg),
+            9..=10 => self.t_use_ptr(pg),
+            11..=13 => self.t_free(pg),
+            14..=16 => self.t_string(pg),
+            17..=19 => self.t_format(pg),
+            20..=21 => self.t_system(pg),
+            22..=25 => self.t_misc_syscalls(pg),
+            26..=28 => self.t_call(pg),
+            29 => {
+                if pg.opts.order_bias || pg.rng.chance(1, 3) {
+                    self.t_chain(pg)
+                } else if trig {
+                    self.t_misc_syscalls(pg)
+                } else {
+                    self.t_plain(pg)
+                }
+            }
+            30..=32 => self.t_if(pg, depth),
+            33..=36 => self.t_loop(pg, depth),
+            37 => self.t_switch(pg, depth),
+            _ => self.t_exit(pg),
+        }
+    }
+
+    fn stmts(&mut self, pg: &mut Pg, depth: u32, n: usize) {
+        for _ in 0..n {
+            if self.budget <= 0 {
+                break;
+            }
+            self.stmt(pg, depth);
+        }
+    }
+}
+
+/// Generate one function; returns the assembled blocks.
+fn gen_function(pg: &mut Pg, fidx: usize) -> (Assembled, bool, bool) {
+    let mut asm = Asm::default();
+    let exit_label = asm.label();
+    let big_frame = pg.rng.chance(1, 12);
+    let mut f = Fg {
+        asm,
+        fidx,
+        slots: [SlotK::Int; 6],
+        exit_label,
+        budget: 4 + pg.rng.below(if pg.opts.order_bias { 14 } else { 11 }) as i32,
+        frame: if big_frame { *pg.rng.pick(&[0x2000u64, 0x4010]) } else { *pg.rng.pick(&[0x90u64, 0xa0, 0x100]) },
+        calls_system: false,
+        calls_priv: false,
+    };
+    if big_frame {
+        pg.feat("big-stack-frame");
+    }
+    let nargs = pg.rng.usize_below(3);
+    f.prologue(pg, nargs);
+    let n = 2 + pg.rng.usize_below(6);
+    f.stmts(pg, 0, n);
+    // return value
+    if pg.rng.bool() {
+        let k = pg.rng.usize_below(6);
+        f.ld_slot("RAX", k);
+    } else {
+        f.mov_ri(pg, "RAX", 0);
+    }
+    let canary = pg.rng.chance(1, 5) && pg.ext_idx("__stack_chk_fail").is_some();
+    let l_fail = f.asm.label();
+    f.asm.bind(exit_label);
+    if canary {
+        f.ld("RDX", "RBP", -0x88);
+        let ops = f.cmp_ops(r8("RDX"), vmem(pg.lay.bss_base + 0xf8, 8), 8);
+        f.asm.emit(ops);
+        let t = f.asm.tmp(1);
+        f.asm.push(vec![op1("BOOL_NEGATE", t.clone(), vreg("ZF", 1))], Fin::CJmp(t, l_fail));
+    }
+    f.epilogue();
+    if canary {
+        f.asm.bind(l_fail);
+        let addr = pg.ext_addr("__stack_chk_fail").unwrap();
+        f.call_addr(pg, addr, false);
+        pg.feat("stack-canary");
+    }
+    let base = pg.fn_addr(fidx);
+    let assembled = assemble(&f.asm, base);
+    (assembled, f.calls_system, f.calls_priv)
+}
+
+// =====================================================================================
+// Part 4: whole program + ELF image
+// =====================================================================================
+
+/// A generated analyzer input.
+#[derive(Clone, Debug)]
+pub struct Input {
+    pub pcode: String,
+    pub elf: Vec<u8>,
+    pub kind: ElfKind,
+    pub loops: usize,
+    pub n_subs: usize,
+    pub n_blocks: usize,
+    pub max_blocks_per_sub: usize,
+    /// checks that the input is built to trigger with certainty (syntactic checks only)
+    pub expect: BTreeSet<String>,
+    pub features: BTreeSet<String>,
+    pub extern_names: Vec<String>,
+}
+
+fn register_properties() -> Value {
+    let mut regs = Vec::new();
+    for (r64, r32_, r16, r8_) in FAM {
+        regs.push(json!({"register": r64, "base_register": r64, "lsb": 0, "size": 8}));
+        regs.push(json!({"register": r32_, "base_register": r64, "lsb": 0, "size": 4}));
+        regs.push(json!({"register": r16, "base_register": r64, "lsb": 0, "size": 2}));
+        regs.push(json!({"register": r8_, "base_register": r64, "lsb": 0, "size": 1}));
+    }
+    for (h, b) in [("AH", "RAX"), ("BH", "RBX"), ("CH", "RCX"), ("DH", "RDX")] {
+        regs.push(json!({"register": h, "base_register": b, "lsb": 1, "size": 1}));
+    }
+    for f in ["CF", "PF", "AF", "ZF", "SF", "TF", "IF", "DF", "OF"] {
+        regs.push(json!({"register": f, "base_register": f, "lsb": 0, "size": 1}));
+    }
+    regs.push(json!({"register": "RIP", "base_register": "RIP", "lsb": 0, "size": 8}));
+    regs.push(json!({"register": "EIP", "base_register": "RIP", "lsb": 0, "size": 4}));
+    regs.push(json!({"register": "FS_OFFSET", "base_register": "FS_OFFSET", "lsb": 0, "size": 8}));
+    for i in 0..8 {
+        regs.push(json!({"register": format!("YMM{i}"), "base_register": format!("YMM{i}"), "lsb": 0, "size": 32}));
+        regs.push(json!({"register": format!("XMM{i}"), "base_register": format!("YMM{i}"), "lsb": 0, "size": 16}));
+        regs.push(json!({"register": format!("XMM{i}_Qa"), "base_register": format!("YMM{i}"), "lsb": 0, "size": 8}));
+    }
+    json!(regs)
+}
+
+fn calling_conventions() -> Value {
+    let xmm: Vec<String> = (0..8).map(|i| format!("XMM{i}_Qa")).collect();
+    json!([
+        {
+            "calling_convention": "__stdcall",
+            "integer_parameter_register": PARAMS,
+            "float_parameter_register": xmm,
+            "return_register": ["RAX", "RDX"],
+            "float_return_register": ["XMM0_Qa"],
+            "unaffected_register": ["RBX", "RSP", "RBP", "R12", "R13", "R14", "R15"],
+            "killed_by_call_register": ["RAX", "RCX", "RDX", "RSI", "RDI", "R8", "R9", "R10", "R11"]
+        },
+        {
+            "calling_convention": "MSABI",
+            "integer_parameter_register": ["RCX", "RDX", "R8", "R9"],
+            "float_parameter_register": ["XMM0_Qa", "XMM1_Qa", "XMM2_Qa", "XMM3_Qa"],
+            "return_register": ["RAX"],
+            "float_return_register": ["XMM0_Qa"],
+            "unaffected_register": ["RBX", "RBP", "RDI", "RSI", "RSP", "R12", "R13", "R14", "R15"],
+            "killed_by_call_register": ["RAX", "RCX", "RDX", "R8", "R9", "R10", "R11"]
+        },
+        {
+            "calling_convention": "syscall",
+            "integer_parameter_register": ["RDI", "RSI", "RDX", "R10", "R8", "R9"],
+            "float_parameter_register": [],
+            "return_register": ["RAX"],
+            "float_return_register": [],
+            "unaffected_register": ["RBX", "RSP", "RBP", "R12", "R13", "R14", "R15"],
+            "killed_by_call_register": ["RAX", "RCX", "R11"]
+        }
+    ])
+}
+
+fn extern_symbol_json(lay: &Layout, idx: usize, e: &Ext, rng: &mut Rng) -> Value {
+    let addr = lay.plt_base + 0x10 * idx as u64;
+    let a = format!("{addr:08x}");
+    let mut args = Vec::new();
+    for p in PARAMS.iter().take(e.1) {
+        args.push(json!({"var": vreg(p, 8), "location": null, "intent": "INPUT"}));
+    }
+    if e.2 {
+        args.push(json!({"var": vreg("RAX", 8), "location": null, "intent": "OUTPUT"}));
+    }
+    let mut addresses = vec![a.clone()];
+    if rng.chance(1, 4) {
+        addresses.push(format!("{:08x}", lay.plt_base + 0x400 + 0x8 * idx as u64));
+    }
+    json!({
+        "tid": tidj(&format!("sub_{a}"), &a),
+        "addresses": addresses,
+        "name": e.0,
+        "calling_convention": "__stdcall",
+        "arguments": args,
+        "no_return": e.3,
+        "has_var_args": e.4,
+    })
+}
+
+/// Generate a complete input (P-Code JSON + ELF bytes).
+pub fn gen_input(rng: &mut Rng, opts: &GenOpts) -> Input {
+    let lay = Layout::new(opts.kind);
+    let (ro_bytes, ro_offs) = rodata_bytes();
+    let ext: &'static [Ext] = if opts.kind == ElfKind::Lkm { EXT_LKM } else { EXT_USER };
+    let n_funcs = 2 + rng.usize_below(5);
+    let mut pg = Pg {
+        rng,
+        lay: lay.clone(),
+        opts: opts.clone(),
+        ext,
+        used_ext: BTreeSet::new(),
+        ro_offs,
+        expect: BTreeSet::new(),
+        n_funcs,
+        loops: 0,
+        foreign_targets: Vec::new(),
+        features: BTreeSet::new(),
+        has_chdir_symbol_calls: false,
+    };
+    let names = ["main", "handle_request", "parse_config", "init_module", "do_work", "cleanup"];
+    let mut subs: Vec<Value> = Vec::new();
+    let mut sub_blocks: Vec<Vec<Value>> = Vec::new();
+    let mut text_end = lay.text_base;
+    let mut n_blocks = 0;
+    let mut max_blocks = 0;
+    for fidx in 0..n_funcs {
+        let (asmd, calls_system, calls_priv) = gen_function(&mut pg, fidx);
+        if calls_system && calls_priv {
+            pg.expect.insert("CWE426".into());
+        }
+        text_end = text_end.max(asmd.end_addr);
+        n_blocks += asmd.blocks.len();
+        max_blocks = max_blocks.max(asmd.blocks.len());
+        // export a few labelled blocks as targets for jumps from later functions
+        let mut lb = asmd.label_blocks.clone();
+        pg.rng.shuffle(&mut lb);
+        let take = if pg.opts.order_bias { 4 } else { 2 };
+        pg.foreign_targets.extend(lb.into_iter().take(take));
+        sub_blocks.push(asmd.blocks);
+    }
+    // Ghidra lists a block in every function whose body contains it: copy a shared block sometimes.
+    if n_funcs >= 2 && pg.rng.chance(1, if pg.opts.order_bias { 2 } else { 6 }) {
+        let from = pg.rng.usize_below(n_funcs);
+        let to = pg.rng.usize_below(n_funcs);
+        if from != to && sub_blocks[from].len() > 2 {
+            let bi = 1 + pg.rng.usize_below(sub_blocks[from].len() - 1);
+            let b = sub_blocks[from][bi].clone();
+            sub_blocks[to].push(b);
+            pg.feat("block-listed-in-two-functions");
+        }
+    }
+    for (fidx, mut blocks) in sub_blocks.into_iter().enumerate() {
+        if pg.rng.chance(1, 4) && blocks.len() > 2 {
+            // "the first block of the array may not be the function entry point"
+            let tail = &mut blocks[..];
+            pg.rng.shuffle(tail);
+            pg.feat("blocks-not-in-address-order");
+        }
+        let a = pg.fn_addr(fidx);
+        let cconv = match pg.rng.below(4) {
+            0 => Value::Null,
+            1 => json!("unknown"),
+            _ => json!("__stdcall"),
+        };
+        subs.push(json!({"tid": sub_tid(a), "term": {"name": names[fidx], "blocks": blocks, "calling_convention": cconv}}));
+    }
+    // extern symbols: the used ones plus a few unused
+    let mut ext_idx: BTreeSet<usize> = pg.used_ext.clone();
+    let extras = pg.rng.usize_below(6);
+    for _ in 0..extras {
+        ext_idx.insert(pg.rng.usize_below(ext.len()));
+    }
+    let mut externs: Vec<Value> = Vec::new();
+    let mut extern_names = Vec::new();
+    for i in &ext_idx {
+        extern_names.push(ext[*i].0.to_string());
+        externs.push(extern_symbol_json(&lay, *i, &ext[*i], pg.rng));
+    }
+    pg.rng.shuffle(&mut externs);
+    pg.rng.shuffle(&mut subs);
+    // program-level expectations
+    let has = |n: &str| extern_names.iter().any(|x| x == n);
+    if pg.used_ext.contains(&pg.ext_idx("rand").unwrap_or(usize::MAX)) || has("rand") {
+        if !has("srand") {
+            pg.expect.insert("CWE332".into());
+        }
+    }
+    if pg.features.contains("chroot") && has("chroot") && !has("chdir") {
+        pg.expect.insert("CWE243".into());
+    }
+    if opts.debug_sections {
+        pg.expect.insert("CWE215".into());
+    }
+    let entry = sub_tid(pg.fn_addr(0));
+    let image_base_s = format!("{:08x}", lay.image_base);
+    let project = json!({
+        "program": {
+            "tid": tidj(&format!("prog_{image_base_s}"), &image_base_s),
+            "term": {
+                "subs": subs,
+                "extern_symbols": externs,
+                "entry_points": [entry],
+                "image_base": image_base_s,
+            }
+        },
+        "stack_pointer_register": vreg("RSP", 8),
+        "cpu_architecture": "x86_64",
+        "register_properties": register_properties(),
+        "register_calling_convention": calling_conventions(),
+        "datatype_properties": {
+            "char_size": 1, "double_size": 8, "float_size": 4, "integer_size": 4, "long_double_size": 16,
+            "long_long_size": 8, "long_size": 8, "pointer_size": 8, "short_size": 2
+        }
+    });
+    let text_len = (text_end - lay.text_base).max(0x10);
+    let elf = build_elf(&lay, &ro_bytes, &data_bytes(&lay), text_len, opts.debug_sections);
+    Input {
+        pcode: project.to_string(),
+        elf,
+        kind: opts.kind,
+        loops: pg.loops,
+        n_subs: n_funcs,
+        n_blocks,
+        max_blocks_per_sub: max_blocks,
+        expect: pg.expect.clone(),
+        features: pg.features.clone(),
+        extern_names,
+    }
+}
+
+/// Fixed minimal input: one function that stores through a NULL pointer and calls strcpy.
+/// (Smallest program on which the pointer inference itself reports a NULL dereference.)
+pub fn tiny_input() -> Input {
+    tiny(false)
+}
+
+/// Fixed minimal input for the expression-propagation order dependence: a dependent arithmetic chain of
+/// depth 12 on RAX (with a multiplication), `RDX = RAX + 1`, a block boundary, `store RDX`, `malloc(RDX)`.
+pub fn tiny_chain_input() -> Input {
+    tiny(true)
+}
+
+fn tiny(chain: bool) -> Input {
+    let mut rng = Rng::new(7);
+    let opts = GenOpts { kind: ElfKind::Exec, order_bias: false, trigger_bias: false, debug_sections: false };
+    let lay = Layout::new(opts.kind);
+    let (ro_bytes, ro_offs) = rodata_bytes();
+    let mut pg = Pg {
+        rng: &mut rng,
+        lay: lay.clone(),
+        opts: opts.clone(),
+        ext: EXT_USER,
+        used_ext: BTreeSet::new(),
+        ro_offs,
+        expect: BTreeSet::new(),
+        n_funcs: 1,
+        loops: 0,
+        foreign_targets: Vec::new(),
+        features: BTreeSet::new(),
+        has_chdir_symbol_calls: false,
+    };
+    let mut asm = Asm::default();
+    let exit_label = asm.label();
+    let mut f = Fg { asm, fidx: 0, slots: [SlotK::Int; 6], exit_label, budget: 0, frame: 0x90, calls_system: false, calls_priv: false };
+    f.asm.emit(vec![op2("INT_SUB", r8("RSP"), r8("RSP"), vconst(8, 8)), op_store(r8("RSP"), r8("RBP"))]);
+    f.mov_rr("RBP", "RSP");
+    f.asm.emit(vec![op2("INT_SUB", r8("RSP"), r8("RSP"), vconst(0x90, 8))]);
+    let callee = if chain { "malloc" } else { "strcpy" };
+    if chain {
+        f.ld_slot("RSI", 0);
+        f.ld_slot("RCX", 1);
+        f.asm.emit(vec![op2("INT_ADD", r8("RAX"), r8("RSI"), r8("RCX"))]);
+        for i in 0..12u64 {
+            let (mn, src) = match i % 4 {
+                0 => ("INT_MULT", vconst(3, 8)),
+                1 => ("INT_XOR", r8("RSI")),
+                2 => ("INT_ADD", r8("RCX")),
+                _ => ("INT_LEFT", vconst(1, 8)),
+            };
+            f.asm.emit(vec![op2(mn, r8("RAX"), r8("RAX"), src)]);
+        }
+        f.lea("RDX", "RAX", 1);
+        let t = f.asm.tmp(8);
+        let t4 = f.asm.tmp(4);
+        let mut ops = vec![op2("INT_ADD", t.clone(), r8("RBP"), vconst_i(Fg::slot_off(2), 8)), op_load(t4.clone(), t)];
+        ops.extend(f.cmp_ops(t4, vconst(7, 4), 4));
+        f.asm.emit(ops);
+        let l = f.asm.label();
+        f.jz(l);
+        f.asm.emit(vec![op1("COPY", r8("R9"), r8("R9"))]);
+        f.asm.bind(l);
+        f.st_slot(3, "RDX");
+        f.mov_rr("RDI", "RDX");
+        f.call_named(&mut pg, "malloc");
+    } else {
+        f.asm.emit(vec![op1("COPY", r8("RAX"), vconst(0, 8))]);
+        f.st("RAX", 8, vconst(0x41, 8));
+        f.lea("RDI", "RBP", BUF_OFF);
+        let a = pg.ro("/bin/sh");
+        f.asm.emit(vec![op1("COPY", r8("RSI"), vconst(a, 8))]);
+        f.call_named(&mut pg, "strcpy");
+    }
+    f.asm.bind(exit_label);
+    f.epilogue();
+    let asmd = assemble(&f.asm, pg.fn_addr(0));
+    let idx = pg.ext_idx(callee).unwrap();
+    let externs = vec![extern_symbol_json(&lay, idx, &EXT_USER[idx], pg.rng)];
+    let image_base_s = format!("{:08x}", lay.image_base);
+    let n_blocks = asmd.blocks.len();
+    let project = json!({
+        "program": {
+            "tid": tidj(&format!("prog_{image_base_s}"), &image_base_s),
+            "term": {
+                "subs": [{"tid": sub_tid(pg.fn_addr(0)), "term": {"name": "main", "blocks": asmd.blocks, "calling_convention": "__stdcall"}}],
+                "extern_symbols": externs,
+                "entry_points": [sub_tid(pg.fn_addr(0))],
+                "image_base": image_base_s,
+            }
+        },
+        "stack_pointer_register": vreg("RSP", 8),
+        "cpu_architecture": "x86_64",
+        "register_properties": register_properties(),
+        "register_calling_convention": calling_conventions(),
+        "datatype_properties": {
+            "char_size": 1, "double_size": 8, "float_size": 4, "integer_size": 4, "long_double_size": 16,
+            "long_long_size": 8, "long_size": 8, "pointer_size": 8, "short_size": 2
+        }
+    });
+    let elf = build_elf(&lay, &ro_bytes, &data_bytes(&lay), (asmd.end_addr - lay.text_base).max(0x10), false);
+    Input {
+        pcode: project.to_string(),
+        elf,
+        kind: ElfKind::Exec,
+        loops: 0,
+        n_subs: 1,
+        n_blocks,
+        max_blocks_per_sub: n_blocks,
+        expect: if chain { BTreeSet::new() } else { ["CWE676".to_string()].into_iter().collect() },
+        features: BTreeSet::new(),
+        extern_names: vec![callee.into()],
+    }
+}
+
+// ---- ELF writer ------------------------------------------------------------------------
+
+fn w16(v: &mut Vec<u8>, x: u16) {
+    v.extend_from_slice(&x.to_le_bytes());
+}
+fn w32(v: &mut Vec<u8>, x: u32) {
+    v.extend_from_slice(&x.to_le_bytes());
+}
+fn w64(v: &mut Vec<u8>, x: u64) {
+    v.extend_from_slice(&x.to_le_bytes());
+}
+
+struct Sec {
+    name: &'static str,
+    sh_type: u32,
+    flags: u64,
+    addr: u64,
+    bytes: Vec<u8>,
+    /// size in memory for NOBITS
+    size: u64,
+    align: u64,
+}
+
+/// Build the ELF file matching `lay`. For Exec/Pie: 4 PT_LOAD segments (+ optional section table);
+/// for Lkm: a relocatable object with the alloc sections in layout order.
+pub fn build_elf(lay: &Layout, rodata: &[u8], data: &[u8], text_len: u64, debug_sections: bool) -> Vec<u8> {
+    const SHF_WRITE: u64 = 1;
+    const SHF_ALLOC: u64 = 2;
+    const SHF_EXEC: u64 = 4;
+    let delta = match lay.kind {
+        ElfKind::Exec => 0,
+        ElfKind::Pie | ElfKind::Lkm => lay.image_base,
+    };
+    // pseudo code bytes (never interpreted by the analyzer)
+    let text: Vec<u8> = (0..text_len).map(|i| (mix(i, 0x7e) & 0xff) as u8).collect();
+    let mut secs: Vec<Sec> = Vec::new();
+    secs.push(Sec { name: ".rodata", sh_type: 1, flags: SHF_ALLOC, addr: lay.rodata_base - delta, bytes: rodata.to_vec(), size: rodata.len() as u64, align: 16 });
+    if lay.kind == ElfKind::Lkm {
+        let mut m = b"license=GPL\0author=vmon\0name=gen\0".to_vec();
+        m.resize(MODINFO_LEN as usize, 0);
+        secs.push(Sec { name: ".modinfo", sh_type: 1, flags: SHF_ALLOC, addr: 0, bytes: m, size: MODINFO_LEN, align: 8 });
+    }
+    secs.push(Sec { name: ".data", sh_type: 1, flags: SHF_ALLOC | SHF_WRITE, addr: lay.data_base - delta, bytes: data.to_vec(), size: data.len() as u64, align: 8 });
+    if lay.kind == ElfKind::Lkm {
+        secs.push(Sec { name: ".gnu.linkonce.this_module", sh_type: 1, flags: SHF_ALLOC | SHF_WRITE, addr: 0, bytes: vec![0; THIS_MODULE_LEN as usize], size: THIS_MODULE_LEN, align: 64 });
+    }
+    secs.push(Sec { name: ".bss", sh_type: 8, flags: SHF_ALLOC | SHF_WRITE, addr: lay.bss_base - delta, bytes: Vec::new(), size: BSS_LEN, align: 8 });
+    secs.push(Sec { name: ".text", sh_type: 1, flags: SHF_ALLOC | SHF_EXEC, addr: lay.text_base - delta, bytes: text, size: text_len, align: 16 });
+    if debug_sections {
+        secs.push(Sec { name: ".debug_info", sh_type: 1, flags: 0, addr: 0, bytes: vec![0x11; 24], size: 24, align: 1 });
+        secs.push(Sec { name: ".debug_str", sh_type: 1, flags: 0, addr: 0, bytes: b"main\0".to_vec(), size: 5, align: 1 });
+    }
+    let is_rel = lay.kind == ElfKind::Lkm;
+    let with_sections = is_rel || debug_sections;
+    let n_ph: u64 = if is_rel { 0 } else { 4 };
+    let mut out = vec![0u8; 64 + 56 * n_ph as usize];
+    // place section contents
+    let mut offs: Vec<u64> = Vec::new();
+    for s in &secs {
+        while out.len() as u64 % 16 != 0 {
+            out.push(0);
+        }
+        offs.push(out.len() as u64);
+        out.extend_from_slice(&s.bytes);
+    }
+    // section name table + headers
+    let mut shoff = 0u64;
+    let mut shnum = 0u16;
+    let mut shstrndx = 0u16;
+    if with_sections {
+        let mut strtab = vec![0u8];
+        let mut name_off = Vec::new();
+        for s in &secs {
+            name_off.push(strtab.len() as u32);
+            strtab.extend_from_slice(s.name.as_bytes());
+            strtab.push(0);
+        }
+        let shstr_name = strtab.len() as u32;
+        strtab.extend_from_slice(b".shstrtab\0");
+        while out.len() % 8 != 0 {
+            out.push(0);
+        }
+        let strtab_off = out.len() as u64;
+        out.extend_from_slice(&strtab);
+        while out.len() % 8 != 0 {
+            out.push(0);
+        }
+        shoff = out.len() as u64;
+        let mut sh = vec![0u8; 64]; // null section
+        for (i, s) in secs.iter().enumerate() {
+            w32(&mut sh, name_off[i]);
+            w32(&mut sh, s.sh_type);
+            w64(&mut sh, s.flags);
+            w64(&mut sh, if is_rel { 0 } else { s.addr });
+            w64(&mut sh, offs[i]);
+            w64(&mut sh, s.size);
+            w32(&mut sh, 0);
+            w32(&mut sh, 0);
+            w64(&mut sh, s.align);
+            w64(&mut sh, 0);
+        }
+        w32(&mut sh, shstr_name);
+        w32(&mut sh, 3);
+        w64(&mut sh, 0);
+        w64(&mut sh, 0);
+        w64(&mut sh, strtab_off);
+        w64(&mut sh, strtab.len() as u64);
+        w32(&mut sh, 0);
+        w32(&mut sh, 0);
+        w64(&mut sh, 1);
+        w64(&mut sh, 0);
+        shnum = secs.len() as u16 + 2;
+        shstrndx = shnum - 1;
+        out.extend_from_slice(&sh);
+    }
+    // ELF header
+    let mut h = Vec::new();
+    h.extend_from_slice(&[0x7f, b'E', b'L', b'F', 2, 1, 1, 0, 0, 0, 0, 0, 0, 0, 0, 0]);
+    w16(&mut h, match lay.kind { ElfKind::Exec => 2, ElfKind::Pie => 3, ElfKind::Lkm => 1 });
+    w16(&mut h, 62);
+    w32(&mut h, 1);
+    w64(&mut h, if is_rel { 0 } else { lay.text_base - delta });
+    w64(&mut h, if is_rel { 0 } else { 64 });
+    w64(&mut h, shoff);
+    w32(&mut h, 0);
+    w16(&mut h, 64);
+    w16(&mut h, if is_rel { 0 } else { 56 });
+    w16(&mut h, n_ph as u16);
+    w16(&mut h, 64);
+    w16(&mut h, shnum);
+    w16(&mut h, shstrndx);
+    out[..64].copy_from_slice(&h);
+    if !is_rel {
+        // PT_LOAD: headers+plt (R X), rodata (R), data+bss (RW), text (R X)
+        let find = |n: &str| secs.iter().position(|s| s.name == n).unwrap();
+        let (ro, da, tx) = (find(".rodata"), find(".data"), find(".text"));
+        let hdr_len = 64 + 56 * n_ph;
+        let phs: [(u32, u64, u64, u64, u64); 4] = [
+            (5, 0, lay.image_base - delta, hdr_len, 0x1000),
+            (4, offs[ro], secs[ro].addr, secs[ro].size, secs[ro].size),
+            (6, offs[da], secs[da].addr, secs[da].size, secs[da].size + BSS_LEN),
+            (5, offs[tx], secs[tx].addr, secs[tx].size, secs[tx].size),
+        ];
+        let mut p = Vec::new();
+        for (flags, off, vaddr, filesz, memsz) in phs {
+            w32(&mut p, 1);
+            w32(&mut p, flags);
+            w64(&mut p, off);
+            w64(&mut p, vaddr);
+            w64(&mut p, vaddr);
+            w64(&mut p, filesz);
+            w64(&mut p, memsz);
+            w64(&mut p, 0x1000);
+        }
+        out[64..64 + p.len()].copy_from_slice(&p);
+    }
+    out
+}
+
+// =====================================================================================
+// Part 5: running the real CLI
+// =====================================================================================
+
+static TMP_COUNTER: AtomicUsize = AtomicUsize::new(0);
+
+/// A directory under the system temp dir that is removed on drop.
+pub struct TempDir {
+    pub path: PathBuf,
+}
+
+impl TempDir {
+    pub fn new() -> std::io::Result<TempDir> {
+        let n = TMP_COUNTER.fetch_add(1, Ordering::SeqCst);
+        let path = std::env::temp_dir().join(format!("vmon-{}-{}", std::process::id(), n));
+        std::fs::create_dir_all(&path)?;
+        Ok(TempDir { path })
+    }
+}
+
+impl Drop for TempDir {
+    fn drop(&mut self) {
+        let _ = std::fs::remove_dir_all(&self.path);
+    }
+}
+
+/// Everything needed to run the CLI: binary, configuration directory, module list.
+pub struct CliEnv {
+    pub bin: PathBuf,
+    _cfg_dir: TempDir,
+    pub xdg: PathBuf,
+    /// (name, version) in the order printed by `--module-versions`
+    pub modules: Vec<(String, String)>,
+    pub module_versions_raw: String,
+}
+
+impl CliEnv {
+    pub fn version_of(&self, name: &str) -> Option<&str> {
+        self.modules.iter().find(|m| m.0 == name).map(|m| m.1.as_str())
+    }
+    pub fn names(&self) -> Vec<String> {
+        self.modules.iter().map(|m| m.0.clone()).collect()
+    }
+}
+
+fn repo_dir() -> PathBuf {
+    std::env::var("VMON_REPO_DIR").map(PathBuf::from).unwrap_or_else(|_| PathBuf::from("/repo"))
+}
+
+/// Prepare the CLI environment. `Err(reason)` = the harness cannot run (inconclusive).
+pub fn cli_env(cfg: &Cfg) -> Result<CliEnv, String> {
+    let bin = cfg.harness_dir.join("target-cli/release/cwe_checker");
+    if !bin.is_file() {
+        return Err(format!("cli-binary-missing:{}", bin.display()));
+    }
+    let dir = TempDir::new().map_err(|e| format!("tempdir:{e}"))?;
+    let cdir = dir.path.join("cwe_checker");
+    std::fs::create_dir_all(&cdir).map_err(|e| format!("tempdir:{e}"))?;
+    for f in ["config.json", "lkm_config.json"] {
+        std::fs::copy(repo_dir().join("src").join(f), cdir.join(f)).map_err(|e| format!("config-copy:{f}:{e}"))?;
+    }
+    let xdg = dir.path.clone();
+    let out = Command::new(&bin)
+        .arg("--module-versions")
+        .env("XDG_CONFIG_HOME", &xdg)
+        .env("RUST_BACKTRACE", "0")
+        .env("RUST_LIB_BACKTRACE", "0")
+        .stdin(Stdio::null())
+        .output()
+        .map_err(|e| format!("cli-spawn:{e}"))?;
+    if !out.status.success() {
+        return Err(format!("module-versions-failed:{:?}", out.status.code()));
+    }
+    let raw = String::from_utf8_lossy(&out.stdout).to_string();
+    let modules = parse_module_versions(&raw);
+    if modules.is_empty() {
+        return Err("module-versions-empty".into());
+    }
+    Ok(CliEnv { bin, _cfg_dir: dir, xdg, modules, module_versions_raw: raw })
+}
+
+/// Lines of the form `"NAME": "VERSION"` after the header line.
+pub fn parse_module_versions(raw: &str) -> Vec<(String, String)> {
+    let mut v = Vec::new();
+    for line in raw.lines() {
+        let parts: Vec<&str> = line.split('"').collect();
+        // "NAME": "VERSION"  ->  ["", NAME, ": ", VERSION, ""]
+        if parts.len() == 5 && parts[2].trim() == ":" {
+            v.push((parts[1].to_string(), parts[3].to_string()));
+        }
+    }
+    v
+}
+
+#[derive(Clone, Debug, Default)]
+pub struct RunOpts {
+    /// pin the process to this CPU with `taskset -c N`
+    pub cpu: Option<usize>,
+    pub valgrind: bool,
+    pub timeout: Option<Duration>,
+}
+
+#[derive(Clone, Debug)]
+pub struct CliOut {
+    pub exit: Option<i32>,
+    pub signal: Option<i32>,
+    pub stdout: Vec<u8>,
+    pub stderr: String,
+    pub timed_out: bool,
+    pub spawn_error: Option<String>,
+    /// payloads of the `module_run` events, in order
+    pub events: Vec<String>,
+    pub wall_ms: u64,
+}
+
+/// Files of one input written into a fresh temp dir.
+pub struct InputFiles {
+    pub dir: TempDir,
+    pub elf: PathBuf,
+    pub pcode: PathBuf,
+}
+
+pub fn write_input(pcode: &str, elf: &[u8]) -> Result<InputFiles, String> {
+    let dir = TempDir::new().map_err(|e| format!("tempdir:{e}"))?;
+    let elf_p = dir.path.join("input.elf");
+    let pc_p = dir.path.join("pcode.json");
+    std::fs::write(&elf_p, elf).map_err(|e| format!("write:{e}"))?;
+    std::fs::write(&pc_p, pcode).map_err(|e| format!("write:{e}"))?;
+    Ok(InputFiles { dir, elf: elf_p, pcode: pc_p })
+}
+
+/// Run `cwe_checker <elf> --pcode-raw <json> --json --quiet [extra..]` with a watchdog.
+pub fn run_cli(env: &CliEnv, files: &InputFiles, extra: &[String], opts: &RunOpts) -> CliOut {
+    let n = TMP_COUNTER.fetch_add(1, Ordering::SeqCst);
+    let ev_path = files.dir.path.join(format!("events-{n}.jsonl"));
+    let out_path = files.dir.path.join(format!("stdout-{n}"));
+    let err_path = files.dir.path.join(format!("stderr-{n}"));
+    let mut argv: Vec<std::ffi::OsString> = Vec::new();
+    if let Some(c) = opts.cpu {
+        argv.extend(["taskset".into(), "-c".into(), format!("{c}").into()]);
+    }
+    if opts.valgrind {
+        argv.extend(["valgrind".into(), "--error-exitcode=97".into(), "--quiet".into()]);
+    }
+    argv.push(env.bin.clone().into());
+    argv.push(files.elf.clone().into());
+    argv.push("--pcode-raw".into());
+    argv.push(files.pcode.clone().into());
+    argv.push("--json".into());
+    argv.push("--quiet".into());
+    for e in extra {
+        argv.push(e.into());
+    }
+    let timeout = opts.timeout.unwrap_or(Duration::from_secs(if opts.valgrind { 600 } else { 60 }));
+    let mut res = CliOut { exit: None, signal: None, stdout: Vec::new(), stderr: String::new(), timed_out: false, spawn_error: None, events: Vec::new(), wall_ms: 0 };
+    let (fo, fe) = match (std::fs::File::create(&out_path), std::fs::File::create(&err_path)) {
+        (Ok(a), Ok(b)) => (a, b),
+        _ => {
+            res.spawn_error = Some("cannot create output files".into());
+            return res;
+        }
+    };
+    let start = Instant::now();
+    let mut cmd = Command::new(&argv[0]);
+    cmd.args(&argv[1..])
+        .env("XDG_CONFIG_HOME", &env.xdg)
+        .env("CWE_CHECKER_VERIF_EVENTS", &ev_path)
+        .env("RUST_BACKTRACE", "0")
+        .env("RUST_LIB_BACKTRACE", "0")
+        .stdin(Stdio::null())
+        .stdout(Stdio::from(fo))
+        .stderr(Stdio::from(fe));
+    let mut child = match cmd.spawn() {
+        Ok(c) => c,
+        Err(e) => {
+            res.spawn_error = Some(format!("{e}"));
+            return res;
+        }
+    };
+    let mut sleep_us = 500u64;
+    loop {
+        match child.try_wait() {
+            Ok(Some(status)) => {
+                use std::os::unix::process::ExitStatusExt;
+                res.exit = status.code();
+                res.signal = status.signal();
+                break;
+            }
+            Ok(None) => {
+                if start.elapsed() > timeout {
+                    let _ = child.kill();
+                    let _ = child.wait();
+                    res.timed_out = true;
+                    break;
+                }
+                std::thread::sleep(Duration::from_micros(sleep_us));
+                sleep_us = (sleep_us * 3 / 2).min(20_000);
+            }
+            Err(e) => {
+                res.spawn_error = Some(format!("wait: {e}"));
+                let _ = child.kill();
+                let _ = child.wait();
+                break;
+            }
+        }
+    }
+    res.wall_ms = start.elapsed().as_millis() as u64;
+    res.stdout = std::fs::read(&out_path).unwrap_or_default();
+    res.stderr = String::from_utf8_lossy(&std::fs::read(&err_path).unwrap_or_default()).to_string();
+    if let Ok(text) = std::fs::read_to_string(&ev_path) {
+        for line in text.lines() {
+            if let Ok(v) = serde_json::from_str::<Value>(line) {
+                if v["kind"] == json!("module_run") {
+                    if let Some(p) = v["payload"].as_str() {
+                        res.events.push(p.to_string());
+                    }
+                }
+            }
+        }
+    }
+    let _ = std::fs::remove_file(&out_path);
+    let _ = std::fs::remove_file(&err_path);
+    let _ = std::fs::remove_file(&ev_path);
+    res
+}
+
+pub fn hex(bytes: &[u8]) -> String {
+    let mut s = String::with_capacity(bytes.len() * 2);
+    for b in bytes {
+        s.push_str(&format!("{b:02x}"));
+    }
+    s
+}
+pub fn unhex(s: &str) -> Vec<u8> {
+    (0..s.len() / 2).filter_map(|i| u8::from_str_radix(&s[2 * i..2 * i + 2], 16).ok()).collect()
+}
+
+/// The stored form of an input inside a replay case.
+pub fn input_case(inp: &Input) -> Value {
+    json!({
+        "pcode": serde_json::from_str::<Value>(&inp.pcode).unwrap_or(Value::Null),
+        "elf_hex": hex(&inp.elf),
+        "kind": format!("{:?}", inp.kind),
+    })
+}
+pub fn input_from_case(case: &Value) -> Option<(String, Vec<u8>)> {
+    let pcode = case.get("pcode")?;
+    if pcode.is_null() {
+        return None;
+    }
+    Some((pcode.to_string(), unhex(case.get("elf_hex")?.as_str()?)))
+}
+
+// =====================================================================================
+// Part 6: the C21 oracle
+// =====================================================================================
+
+/// Byte-wise lexicographic comparison of two JSON strings (independent of the analyzer's derive(Ord)).
+fn cmp_str(a: &Value, b: &Value) -> std::cmp::Ordering {
+    let (a, b) = (a.as_str().unwrap_or("").as_bytes(), b.as_str().unwrap_or("").as_bytes());
+    let n = a.len().min(b.len());
+    for i in 0..n {
+        if a[i] != b[i] {
+            return a[i].cmp(&b[i]);
+        }
+    }
+    a.len().cmp(&b.len())
+}
+fn cmp_list(a: &Value, b: &Value, elem: &dyn Fn(&Value, &Value) -> std::cmp::Ordering) -> std::cmp::Ordering {
+    let empty = Vec::new();
+    let (a, b) = (a.as_array().unwrap_or(&empty), b.as_array().unwrap_or(&empty));
+    let n = a.len().min(b.len());
+    for i in 0..n {
+        let c = elem(&a[i], &b[i]);
+        if c != std::cmp::Ordering::Equal {
+            return c;
+        }
+    }
+    a.len().cmp(&b.len())
+}
+/// Documented canonical order: name, version, addresses, tids, symbols, other, description.
+pub fn cmp_warning(a: &Value, b: &Value) -> std::cmp::Ordering {
+    use std::cmp::Ordering::Equal;
+    let strs = |x: &Value, y: &Value| cmp_list(x, y, &cmp_str);
+    let c = cmp_str(&a["name"], &b["name"]);
+    if c != Equal {
+        return c;
+    }
+    let c = cmp_str(&a["version"], &b["version"]);
+    if c != Equal {
+        return c;
+    }
+    for key in ["addresses", "tids", "symbols"] {
+        let c = strs(&a[key], &b[key]);
+        if c != Equal {
+            return c;
+        }
+    }
+    let c = cmp_list(&a["other"], &b["other"], &|x, y| cmp_list(x, y, &cmp_str));
+    if c != Equal {
+        return c;
+    }
+    cmp_str(&a["description"], &b["description"])
+}
+
+/// Warning names that are documented variants of a check: (variant, owning check).
+/// cwe_119 documents CWE-125 (out-of-bounds read) and CWE-787 (out-of-bounds write) as its variants,
+/// cwe_416 documents CWE-415 (double free).
+pub const ALIASES: &[(&str, &str)] = &[("CWE125", "CWE119"), ("CWE787", "CWE119"), ("CWE415", "CWE416")];
+
+pub fn owner_check(name: &str) -> &str {
+    ALIASES.iter().find(|a| a.0 == name).map(|a| a.1).unwrap_or(name)
+}
+
+/// Known-finding key: the pointer inference (`Memory` module) reports NULL dereferences under the
+/// name CWE476 but with its own version string.
+pub const KNOWN_MEMORY_CWE476: &str = "c21-memory-module-emits-cwe476-with-own-version";
+
+/// Discriminator of that finding: name CWE476, version == version of module `Memory` (and != version of
+/// CWE476), and the description is the fixed text of `pointer_inference::Context::report_null_deref`.
+pub fn is_memory_cwe476(env: &CliEnv, w: &Value) -> bool {
+    w["name"] == json!("CWE476")
+        && env.version_of("Memory").is_some()
+        && w["version"].as_str() == env.version_of("Memory")
+        && env.version_of("Memory") != env.version_of("CWE476")
+        && w["description"].as_str().map(|d| d.starts_with("(NULL Pointer Dereference) Memory access at ") && d.ends_with(" may result in a NULL dereference")).unwrap_or(false)
+        && w["symbols"].as_array().map(|a| a.is_empty()).unwrap_or(false)
+}
+
+/// A warning produced by `pointer_inference::Context::report_null_deref` (module `Memory`), recognised by its fixed
+/// description text and empty symbol list - independent of the version it carries.
+pub fn is_memory_null_deref_warning(w: &Value) -> bool {
+    w["name"] == json!("CWE476")
+        && w["description"].as_str().map(|d| d.starts_with("(NULL Pointer Dereference) Memory access at ") && d.ends_with(" may result in a NULL dereference")).unwrap_or(false)
+        && w["symbols"].as_array().map(|a| a.is_empty()).unwrap_or(false)
+}
+
+fn is_str_array(v: &Value) -> bool {
+    v.as_array().map(|a| a.iter().all(|x| x.is_string())).unwrap_or(false)
+}
+
+/// Does stderr look like a Rust panic / abort?
+pub fn panic_text(stderr: &str) -> Option<String> {
+    for line in stderr.lines() {
+        if line.contains("panicked at") || line.contains("RUST_BACKTRACE") || line.contains("stack overflow") || line.contains("memory allocation of") {
+            return Some(line.chars().take(160).collect());
+        }
+    }
+    None
+}
+
+/// Coarse site of a panic for the signature: "file.rs" of `panicked at path/file.rs:line:col`.
+fn panic_sig(stderr: &str) -> String {
+    for line in stderr.lines() {
+        if let Some(p) = line.find("panicked at ") {
+            let rest = &line[p + 12..];
+            let loc = rest.split(':').next().unwrap_or("");
+            let file = loc.rsplit('/').next().unwrap_or(loc);
+            let lineno = rest.split(':').nth(1).unwrap_or("");
+            return format!("{file}:{lineno}");
+        }
+    }
+    "unknown".into()
+}
+
+/// Judge one finished run. Returns the parsed warnings when the output was a JSON array.
+pub fn judge_output(env: &CliEnv, out: &CliOut, what: &str, rep: &mut Report, case: &dyn Fn() -> Value, size: u64) -> Option<Vec<Value>> {
+    rep.eval();
+    if let Some(e) = &out.spawn_error {
+        rep.inconclusive(&format!("spawn-error:{}", e.chars().take(40).collect::<String>()));
+        return None;
+    }
+    if out.timed_out {
+        rep.inconclusive(&format!("watchdog:{what}"));
+        return None;
+    }
+    if let Some(p) = panic_text(&out.stderr) {
+        rep.violation(format!("{what}:panic:{}", panic_sig(&out.stderr)), None, format!("the analyzer panicked (exit {:?}, signal {:?}): {p}", out.exit, out.signal), case(), size);
+        return None;
+    }
+    if out.exit != Some(0) {
+        let first: String = out.stderr.lines().next().unwrap_or("").chars().take(200).collect();
+        if out.signal == Some(9) {
+            rep.inconclusive("killed-by-signal-9");
+            return None;
+        }
+        rep.violation(format!("{what}:exit:{:?}:{:?}", out.exit, out.signal), None, format!("expected exit status 0, observed exit {:?} signal {:?}; stderr: {first}", out.exit, out.signal), case(), size);
+        return None;
+    }
+    let parsed: Result<Value, _> = serde_json::from_slice(&out.stdout);
+    let arr = match parsed {
+        Ok(Value::Array(a)) => a,
+        Ok(other) => {
+            rep.violation(format!("{what}:stdout-not-array"), None, format!("stdout is JSON but not an array: {}", other.to_string().chars().take(120).collect::<String>()), case(), size);
+            return None;
+        }
+        Err(e) => {
+            let head: String = String::from_utf8_lossy(&out.stdout).chars().take(160).collect();
+            rep.violation(format!("{what}:stdout-not-json"), None, format!("stdout of --json --quiet does not parse as JSON ({e}); begins with: {head:?}"), case(), size);
+            return None;
+        }
+    };
+    for (i, w) in arr.iter().enumerate() {
+        let name = w["name"].as_str();
+        let bad = |rep: &mut Report, what2: &str, detail: String| {
+            rep.violation(format!("{what}:element:{what2}"), None, format!("warning #{i}: {detail}; element = {}", w.to_string().chars().take(300).collect::<String>()), case(), size)
+        };
+        match name {
+            None => bad(rep, "name-missing", "field `name` is not a string".into()),
+            Some(n) => match env.version_of(owner_check(n)) {
+                None => bad(rep, "unknown-name", format!("name {n:?} is not in the --module-versions list")),
+                Some(ver) => {
+                    if w["version"].as_str() != Some(ver) {
+                        if is_memory_cwe476(env, w) {
+                            rep.violation(
+                                "element:version:memory-module-cwe476",
+                                Some(KNOWN_MEMORY_CWE476),
+                                format!("warning #{i} is named CWE476 but carries version {} (the version of module `Memory`); check CWE476 has version {ver:?} in --module-versions; element = {}", w["version"], w.to_string().chars().take(300).collect::<String>()),
+                                case(),
+                                size,
+                            );
+                        } else {
+                            bad(rep, "version", format!("check {} has version {ver:?} in --module-versions but the warning says {}", owner_check(n), w["version"]));
+                        }
+                    }
+                }
+            },
+        }
+        if !is_str_array(&w["addresses"]) {
+            bad(rep, "addresses-type", "`addresses` is not an array of strings".into());
+        }
+        if !is_str_array(&w["tids"]) {
+            bad(rep, "tids-type", "`tids` is not an array of strings".into());
+        }
+        if !is_str_array(&w["symbols"]) {
+            bad(rep, "symbols-type", "`symbols` is not an array of strings".into());
+        }
+        if !w["other"].as_array().map(|a| a.iter().all(is_str_array)).unwrap_or(false) {
+            bad(rep, "other-type", "`other` is not an array of arrays of strings".into());
+        }
+        if !w["description"].is_string() {
+            bad(rep, "description-type", "`description` is not a string".into());
+        }
+    }
+    for i in 1..arr.len() {
+        if cmp_warning(&arr[i - 1], &arr[i]) == std::cmp::Ordering::Greater {
+            rep.violation(
+                format!("{what}:unsorted"),
+                None,
+                format!(
+                    "warnings #{} and #{} are not in canonical order (name, version, addresses, tids, symbols, other, description):\n  {}\n  {}",
+                    i - 1,
+                    i,
+                    arr[i - 1].to_string().chars().take(260).collect::<String>(),
+                    arr[i].to_string().chars().take(260).collect::<String>()
+                ),
+                case(),
+                size,
+            );
+            break;
+        }
+    }
+    Some(arr)
+}
+
+/// The three selection modes of C21.
+fn selection_args(rng: &mut Rng, env: &CliEnv, mode: usize) -> (String, Vec<String>) {
+    let names = env.names();
+    match mode {
+        0 => ("default".into(), vec![]),
+        1 => ("all".into(), vec!["--partial".into(), names.join(",")]),
+        _ => {
+            let mut pick: Vec<String> = names.iter().filter(|_| rng.chance(1, 3)).cloned().collect();
+            // heavy checks and CWE78 more often
+            for h in ["CWE78", "CWE119", "CWE416", "CWE476", "CWE252", "CWE337"] {
+                if rng.chance(1, 4) && !pick.iter().any(|p| p == h) && names.iter().any(|n| n == h) {
+                    pick.push(h.to_string());
+                }
+            }
+            if pick.is_empty() {
+                pick.push(rng.pick(&names).clone());
+            }
+            rng.shuffle(&mut pick);
+            ("partial".into(), vec!["--partial".into(), pick.join(",")])
+        }
+    }
+}
+
+pub fn pick_opts(rng: &mut Rng, allow_lkm: bool) -> GenOpts {
+    let kind = match rng.below(10) {
+        0..=4 => ElfKind::Exec,
+        5..=7 => ElfKind::Pie,
+        _ if allow_lkm => ElfKind::Lkm,
+        _ => ElfKind::Exec,
+    };
+    GenOpts { kind, order_bias: rng.chance(1, 4), trigger_bias: rng.chance(1, 3), debug_sections: rng.chance(1, 4) }
+}
+
+fn dump_dir() -> Option<PathBuf> {
+    std::env::var("VMON_C21_DUMP").ok().map(PathBuf::from)
+}
+
+fn check_input(env: &CliEnv, inp: &Input, rng: &mut Rng, rep: &mut Report, modes: &[usize], valgrind_timeout: Option<Duration>) {
+    let valgrind = valgrind_timeout.is_some();
+    let files = match write_input(&inp.pcode, &inp.elf) {
+        Ok(f) => f,
+        Err(e) => {
+            rep.inconclusive(&format!("harness:{e}"));
+            return;
+        }
+    };
+    let size = inp.pcode.len() as u64;
+    for &mode in modes {
+        let (label, mut args) = selection_args(rng, env, mode);
+        if inp.kind == ElfKind::Lkm && mode != 0 {
+            // on kernel modules only the documented kernel-module subset is selected explicitly
+            let lkm: Vec<String> = env.names().into_iter().filter(|n| cwe_checker_lib::checkers::MODULES_LKM.contains(&n.as_str())).collect();
+            let mut pick: Vec<String> = lkm.iter().filter(|_| mode == 1 || rng.bool()).cloned().collect();
+            if pick.is_empty() {
+                pick.push(lkm[0].clone());
+            }
+            args = vec!["--partial".into(), pick.join(",")];
+        }
+        let opts = RunOpts { valgrind, timeout: valgrind_timeout, ..Default::default() };
+        let out = run_cli(env, &files, &args, &opts);
+        let what = if valgrind { "valgrind".to_string() } else { label.clone() };
+        let case = || {
+            let mut c = input_case(inp);
+            c["args"] = json!(args);
+            c["valgrind"] = json!(valgrind);
+            c
+        };
+        if valgrind && out.exit == Some(97) {
+            rep.eval();
+            let first: String = out.stderr.lines().take(6).collect::<Vec<_>>().join(" | ").chars().take(400).collect();
+            rep.violation("valgrind:memcheck-error", None, format!("valgrind memcheck reported errors: {first}"), case(), size);
+            continue;
+        }
+        let warnings = judge_output(env, &out, &what, rep, &case, size);
+        rep.obs(&format!("run:{what}:{:?}", inp.kind));
+        if let Some(w) = warnings {
+            rep.obs_n("warnings-seen", w.len() as u64);
+            for x in &w {
+                if let Some(n) = x["name"].as_str() {
+                    rep.obs(&format!("warning:{n}"));
+                }
+            }
+            if !w.is_empty() && inp.loops >= 1 {
+                rep.nontrivial(mix(hash_str(&inp.pcode), hash_str(&args.join(" "))));
+            }
+            if rep.wants_sample() && !w.is_empty() && mode == 0 {
+                rep.sample(json!({
+                    "kind": format!("{:?}", inp.kind), "functions": inp.n_subs, "blocks": inp.n_blocks, "loops": inp.loops,
+                    "extern_symbols": inp.extern_names, "features": inp.features, "args": args, "exit": out.exit,
+                    "warnings": w.iter().map(|x| format!("{} {}", x["name"].as_str().unwrap_or("?"), x["addresses"])).collect::<Vec<_>>(),
+                    "wall_ms": out.wall_ms,
+                }));
+            }
+        }
+        let bucket = match out.wall_ms {
+            0..=49 => "<50ms",
+            50..=199 => "<200ms",
+            200..=999 => "<1s",
+            1000..=9999 => "<10s",
+            _ => ">=10s",
+        };
+        rep.obs(&format!("wall:{bucket}"));
+    }
+    for f in &inp.features {
+        rep.obs(&format!("feature:{f}"));
+    }
+    rep.obs(&format!("subs:{}", inp.n_subs));
+    rep.obs(&format!("max-blocks-per-sub:{}", (inp.max_blocks_per_sub / 10) * 10));
+}
+
+/// In-process self check of the generator: the JSON must deserialize as the extractor's project type.
+pub fn generator_selfcheck(inp: &Input) -> Result<(), String> {
+    serde_json::from_str::<cwe_checker_lib::pcode::Project>(&inp.pcode).map(|_| ()).map_err(|e| format!("{e}"))
+}
+
+/// Wall-clock budget of a tier in seconds: cases that would start after it are skipped (counted in
+/// `observed["skipped-after-deadline"]`); the sizes below are tuned so that an idle 16-core machine never gets there.
+pub fn deadline_s(cfg: &Cfg) -> f64 {
+    cfg.tier.pick(42.0, 690.0)
+}
+
+fn run(cfg: &Cfg) -> Report {
+    let env = match cli_env(cfg) {
+        Ok(e) => e,
+        Err(reason) => {
+            let mut rep = Report::new();
+            rep.inconclusive(&reason);
+            rep.note(format!("C21 could not run the CLI: {reason}"));
+            return rep;
+        }
+    };
+    let shards = cfg.tier.pick(128usize, 1024usize);
+    let per_shard = cfg.tier.pick(8usize, 28usize);
+    let n_valgrind = cfg.tier.pick(3usize, 20usize);
+    let dump = dump_dir();
+    let have_valgrind = which("valgrind");
+    let mut rep = par_shards(cfg, "c21", shards + n_valgrind, |idx, rng, rep| {
+        if idx < n_valgrind {
+            // valgrind layer (first, so that it is never starved by the deadline): one input, default selection
+            let opts = pick_opts(rng, false);
+            let inp = gen_input(rng, &opts);
+            if have_valgrind {
+                check_input(&env, &inp, rng, rep, &[0], Some(Duration::from_secs(cfg.tier.pick(45, 600))));
+            } else {
+                rep.inconclusive("valgrind-not-installed");
+            }
+            return;
+        }
+        if idx == n_valgrind {
+            // the fixed hand-made minimal pair (sanity anchor of the generator/ELF writer)
+            let tiny = tiny_input();
+            check_input(&env, &tiny, rng, rep, &[0, 1], None);
+            if let Ok(dir) = std::env::var("VMON_WRITE_WITNESS") {
+                let mut c = input_case(&tiny);
+                c["args"] = json!([]);
+                c["valgrind"] = json!(false);
+                let _ = std::fs::write(PathBuf::from(&dir).join("C21-memory-cwe476-version.json"), serde_json::to_string(&json!({"case": c})).unwrap());
+                let mut c = input_case(&tiny);
+                c["args"] = json!(["--partial", "Memory"]);
+                c["built_to_trigger"] = json!([]);
+                let _ = std::fs::write(PathBuf::from(&dir).join("C22-memory-prints-cwe476.json"), serde_json::to_string(&json!({"case": c})).unwrap());
+                let mut c = input_case(&tiny_chain_input());
+                c["selection"] = json!(["CWE190"]);
+                c["runs"] = json!(16);
+                let _ = std::fs::write(PathBuf::from(&dir).join("C23-exprprop-hash-order-cwe190.json"), serde_json::to_string(&json!({"case": c})).unwrap());
+            }
+        }
+        for i in 0..per_shard {
+            if cfg.elapsed_s() > deadline_s(cfg) {
+                rep.obs("skipped-after-deadline");
+                continue;
+            }
+            let opts = pick_opts(rng, true);
+            let inp = gen_input(rng, &opts);
+            if let Err(e) = generator_selfcheck(&inp) {
+                rep.inconclusive("generator-selfcheck-failed");
+                rep.note(format!("generated P-Code JSON does not deserialize: {e}"));
+                continue;
+            }
+            if let Some(d) = &dump {
+                if idx < n_valgrind + 8 {
+                    let _ = std::fs::create_dir_all(d);
+                    let _ = std::fs::write(d.join(format!("{idx}-{i}.json")), &inp.pcode);
+                    let _ = std::fs::write(d.join(format!("{idx}-{i}.elf")), &inp.elf);
+                }
+            }
+            // default + all + two random subsets
+            check_input(&env, &inp, rng, rep, &[0, 1, 2, 2], None);
+        }
+    });
+    if rep.observed.contains_key("skipped-after-deadline") {
+        rep.note(format!("the machine was too slow for the full workload: {} inputs skipped after the {} s deadline", rep.observed["skipped-after-deadline"], deadline_s(cfg)));
+    }
+    rep.extra.insert("module_versions".into(), json!(env.modules));
+    rep
+}
+
+pub fn which(prog: &str) -> bool {
+    std::env::var_os("PATH").map(|p| std::env::split_paths(&p).any(|d| d.join(prog).is_file())).unwrap_or(false)
+}
+
+fn replay(cfg: &Cfg, case: &Value) -> Report {
+    let mut rep = Report::new();
+    let env = match cli_env(cfg) {
+        Ok(e) => e,
+        Err(reason) => {
+            rep.inconclusive(&reason);
+            rep.note(format!("cannot run the CLI: {reason}"));
+            return rep;
+        }
+    };
+    let Some((pcode, elf)) = input_from_case(case) else {
+        rep.note("replay case has no input");
+        return rep;
+    };
+    let files = match write_input(&pcode, &elf) {
+        Ok(f) => f,
+        Err(e) => {
+            rep.note(e);
+            return rep;
+        }
+    };
+    let args: Vec<String> = case["args"].as_array().map(|a| a.iter().filter_map(|x| x.as_str().map(String::from)).collect()).unwrap_or_default();
+    let valgrind = case["valgrind"].as_bool().unwrap_or(false);
+    let out = run_cli(&env, &files, &args, &RunOpts { valgrind, ..Default::default() });
+    let c = || case.clone();
+    if valgrind && out.exit == Some(97) {
+        rep.eval();
+        rep.violation("valgrind:memcheck-error", None, format!("valgrind memcheck reported errors: {}", out.stderr.chars().take(400).collect::<String>()), c(), 1);
+        return rep;
+    }
+    let what = if valgrind { "valgrind" } else if args.is_empty() { "default" } else { "partial" };
+    judge_output(&env, &out, what, &mut rep, &c, pcode.len() as u64);
+    rep
 }
